@@ -44,34 +44,89 @@ def _mapfn(name):
     return m["hmf"].HaldaneMapFunction() if name == "haldane" else m["kmf"].KosambiMapFunction()
 
 
-def _build_map(cls, rows, auto_group=True):
-    """rows: [[chr, phy, gen, tag]] -> map object of the requested class"""
+def _strided(a):
+    """the same values as a non-contiguous view (every second cell of a larger buffer)"""
+    buf = numpy.empty(2 * len(a) + 1, dtype=a.dtype)
+    buf[1::2][:len(a)] = a
+    buf[0::2] = a[0] if len(a) else 0
+    v = buf[1::2][:len(a)]
+    assert len(a) < 2 or not v.flags["C_CONTIGUOUS"]
+    return v
+
+
+def _build_map(cls, rows, auto_group=True, opts=None):
+    """rows: [[chr, phy, gen, tag]] -> map object of the requested class.
+    opts: chr_dt / phy_dt (integer dtypes of the label / position arrays), strided (non-contiguous input arrays),
+    names_none (extended map without vrnt_name / vrnt_fncode), no_spline (auto_build_spline=False),
+    via = ctor | pandas | pandas_cM (factory from_pandas, genetic positions in Morgans / centiMorgans)"""
     m = _mods()
-    chr_ = numpy.array([r[0] for r in rows], dtype=int)
-    phy = numpy.array([int(Fraction(r[1])) for r in rows], dtype=int)
+    o = opts or {}
+    chr_ = numpy.array([r[0] for r in rows], dtype=o.get("chr_dt", "int64"))
+    phy = numpy.array([int(Fraction(r[1])) for r in rows], dtype=o.get("phy_dt", "int64"))
     gen = numpy.array([_f(r[2]) for r in rows], dtype=float)
-    if cls == "std":
-        return m["sgm"].StandardGeneticMap(chr_, phy, gen, auto_group=auto_group)
     tags = [r[3] for r in rows]
     stop = numpy.array([int(Fraction(r[1])) + 7 + t for r, t in zip(rows, tags)], dtype=int)
-    name = numpy.array([f"m{t}" for t in tags], dtype=object)
-    fncode = numpy.array([f"f{t}" for t in tags], dtype=object)
-    return m["egm"].ExtendedGeneticMap(chr_, phy, stop, gen, vrnt_name=name, vrnt_fncode=fncode,
-                                       auto_group=auto_group)
+    name = None if o.get("names_none") else numpy.array([f"m{t}" for t in tags], dtype=object)
+    fncode = None if o.get("names_none") else numpy.array([f"f{t}" for t in tags], dtype=object)
+    if o.get("strided"):
+        chr_, phy, gen, stop = _strided(chr_), _strided(phy), _strided(gen), _strided(stop)
+    kw = {"auto_group": auto_group}
+    if o.get("no_spline"):
+        kw["auto_build_spline"] = False
+    via = o.get("via", "ctor")
+    if via != "ctor":
+        import pandas
+        cm = via == "pandas_cM"
+        cols = {"chr": chr_, "pos": phy, "cM": gen * 100.0 if cm else gen}
+        kw["vrnt_genpos_units"] = "cM" if cm else "M"
+        if cls == "ext":
+            cols["stop"] = stop
+            if name is not None:
+                cols["name"], cols["fncode"] = name, fncode
+                kw["vrnt_name_col"], kw["vrnt_fncode_col"] = "name", "fncode"
+            return m["egm"].ExtendedGeneticMap.from_pandas(pandas.DataFrame(cols), **kw)
+        return m["sgm"].StandardGeneticMap.from_pandas(pandas.DataFrame(cols), **kw)
+    if cls == "std":
+        return m["sgm"].StandardGeneticMap(chr_, phy, gen, **kw)
+    return m["egm"].ExtendedGeneticMap(chr_, phy, stop, gen, vrnt_name=name, vrnt_fncode=fncode, **kw)
 
 
 def _stored(cls, g):
-    """the stored arrays of a map object as rows [[chr, phy, gen, tag]] (tag recovered from vrnt_name)"""
+    """the stored arrays of a map object as rows [[chr, phy, gen, tag]] (tag recovered from vrnt_stop)"""
     tags = [0] * len(g.vrnt_chrgrp)
     ok_tags = True
     if cls == "ext":
-        tags = [int(str(s)[1:]) for s in g.vrnt_name]
+        tags = [int(st) - int(p) - 7 for st, p in zip(g.vrnt_stop, g.vrnt_phypos)]
         # all riding columns must still describe the same original row
-        ok_tags = all(str(f) == f"f{t}" and int(st) == int(p) + 7 + t
-                      for f, st, p, t in zip(g.vrnt_fncode, g.vrnt_stop, g.vrnt_phypos, tags))
+        ok_tags = len(g.vrnt_stop) == len(g.vrnt_chrgrp)
+        for col, pre in ((g.vrnt_name, "m"), (g.vrnt_fncode, "f")):
+            if col is not None:
+                ok_tags = ok_tags and len(col) == len(tags) and all(str(x) == f"{pre}{t}" for x, t in zip(col, tags))
     rows = [[int(c), int(p), canon.enc(float(x)), t] for c, p, x, t in
             zip(g.vrnt_chrgrp, g.vrnt_phypos, g.vrnt_genpos, tags)]
     return rows, ok_tags
+
+
+def _meta(g):
+    if not g.is_grouped():
+        return None
+    return [[int(a), int(b), int(c), int(d)] for a, b, c, d in
+            zip(g.vrnt_chrgrp_name, g.vrnt_chrgrp_stix, g.vrnt_chrgrp_spix, g.vrnt_chrgrp_len)]
+
+
+def _true_meta(rows):
+    """(label, start, stop, length) of the runs of equal adjacent labels: what group() stores for sorted rows"""
+    out = []
+    for i, r in enumerate(rows):
+        if out and out[-1][0] == r[0]:
+            out[-1][2] += 1
+            out[-1][3] += 1
+        else:
+            out.append([r[0], i, i + 1, 1])
+    return out
+
+
+_ERR = {"ValueError": "value", "IndexError": "index"}
 
 
 def _contiguous(chr_):
@@ -88,48 +143,115 @@ def _contiguous(chr_):
 class C11(Prop):
     PID = "C11"
     MODULE = "PybropsModel.Props.C11"
-    N_QUICK = 500
+    N_QUICK = 1000
     N_THOROUGH = 12000
     RULE = ("maps with 1-5 chromosomes (arbitrary integer labels) x 2-8 markers, distinct integer physical "
-            "positions per chromosome (shared across chromosomes), dyadic genetic positions (70% congruent, with "
-            "ties; 30% not), rows shuffled, both map classes, auto_group on/off; queries at knots, strictly "
-            "between flanking markers, outside the range, on absent chromosomes; distance arrays with 1-4 "
-            "chromosome runs, optional NaN positions and slices; map-function arguments 0, tiny, dyadic, large, "
-            "inf; genotype matrices (phased/unphased) whose variants are grouped by the real group_vrnt, 70% with a "
-            "history of 1-4 placements (interp_xoprob / interp_genpos) on TWO different maps and map functions on the "
-            "same object, half of those constructed with unrelated preset vrnt_genpos / vrnt_xoprob.  "
+            "positions per chromosome (shared across chromosomes; common offsets 1e9 / 4e9 or per-chromosome magnitudes "
+            "0 .. 1e15), dyadic genetic positions with steps 2^-6 .. 2^-30 (70% congruent, with ties; 30% not), rows "
+            "shuffled / chromosome blocks ascending with rows shuffled inside / sorted / reversed, both map classes, "
+            "auto_group on/off, constructor argument forms (integer dtypes uint8..uint64 / int8..int32, non-contiguous "
+            "arrays, from_pandas in M / cM, vrnt_name = vrnt_fncode = None, auto_build_spline off); queries at knots, "
+            "strictly between flanking markers, outside the range, on absent chromosomes, as int32 / uint arrays, the "
+            "same array edited in place and asked again; distance arrays with 1-4 chromosome runs (labels 0, negative, "
+            "> 65535; tiny steps on offsets 25000 / 1e9), optional NaN positions, python slice bounds (negative, beyond "
+            "the end) for gdist1g/2g/1p/2p; map-function arguments 0, 1e-12 .. 1e-2 around 1e-8 / 1e-5 / 1e-4, dyadic, "
+            "large, inf, as 1-D / column / non-contiguous / Fortran-ordered 2-D arrays and 0-d scalars; histories of 1-6 "
+            "calls on ONE map object (remove / select by index array, negative indices, boolean mask, slice incl. "
+            "negative step, int, python list; remove_discrepancies; prune; build_spline; group / ungroup / reorder; "
+            "re-assignment of vrnt_phypos / vrnt_genpos; copy / deepcopy; interp_gmap, continuing on the DERIVED map) with "
+            "every law re-checked after every call on the object as it stands and, at the end, on the objects copies / "
+            "derived maps were taken from; genotype matrices (phased/unphased) grouped by the real group_vrnt, 70% with "
+            "1-4 placements on TWO maps / map functions on the same object, then a second matrix placed on the same "
+            "maps; two maps with > 1024 markers.  "
             "Non-trivial = mapfn case with >= 3 distinct distances incl. a positive finite one; gdist case "
             "with >= 2 runs and a run of >= 3 markers; interp case with shuffled rows and a query strictly "
-            "between two markers; xoprob case with >= 2 chromosomes and a chromosome with >= 2 variants")
+            "between two markers; edit case with an editing call and >= 2 calls; xoprob case with >= 2 chromosomes and a "
+            "chromosome with >= 2 variants; big case with > 1024 markers")
     TRUSTED = ["scipy interp1d (kind='linear', fill_value='extrapolate'): contract = searchsorted/clip + "
                "de Boor segment formula of scipy 1.18 `_call_linear`, re-checked on every case",
                "libm exp/log/tanh/atanh of numpy vs Lean's Float (compared to 1e-12 relative)",
-               "DenseVariantMatrix.group_vrnt (property C03) is used as is to group the genotype matrix"]
-    ASSUMPTIONS = ["genetic positions are dyadic rationals, physical positions integers: float results are "
+               "DenseVariantMatrix.group_vrnt (property C03) is used as is to group the genotype matrix",
+               "numpy fancy / boolean / slice indexing and numpy.delete: the harness resolves every index form to the "
+               "list of non-negative indices the model takes",
+               "the two maps with > 1024 markers are judged in numpy (exact: integer / dyadic data) against the same "
+               "clauses, not through the Lean driver"]
+    ASSUMPTIONS = ["genetic positions are dyadic rationals, physical positions integers < 2^53: float results are "
                    "within 1e-9 of the exact rational model",
                    "gdist1g/gdist1p are called on label arrays whose equal labels are contiguous (documented "
-                   "precondition 'sorted'; interp_xoprob enforces it through is_grouped_vrnt)",
-                   "round trip invmapfn(mapfn d): demanded to 1e-10 + 2*2^-50*3^ceil(kappa d) (kappa = 2 Haldane, 4 Kosambi), the "
-                   "conditioning bound proved in mapfn_roundtrip_conditioning for a float mapfn accurate to 8 ulp of 1; "
-                   "nothing is demanded once 4*2^-50*3^ceil(kappa d) > 1 (d > 15 M / 7.5 M) except d = inf"]
+                   "precondition 'sorted'; interp_xoprob enforces it through is_grouped_vrnt; proved for the stored "
+                   "arrays of every constructed map)",
+                   "round trip invmapfn(mapfn d): demanded to 1e-13 + 4*2^-50*3^ceil(kappa d) absolute or 1e-9 relative "
+                   "(kappa = 2 Haldane, 4 Kosambi), the conditioning bound proved in mapfn_roundtrip_conditioning / "
+                   "mapfn_rounded_roundtrip for float mapfn and invmapfn accurate to 8 ulp of 1; "
+                   "nothing is demanded once 4*2^-50*3^ceil(kappa d) > 1 (d > 15 M / 7.5 M) except d = inf",
+                   "D110 (interp_gmap copies the parent's group metadata): the model mirrors the code as is AND its "
+                   "repaired form; which one applies is read off the implementation (derived.is_grouped())"]
 
     # ------------------------------------------------------------------ generation
-    def _gen_map(self, rng, nchr=None, labels=None, like=None):
+    def _gen_mopts(self, rng, cls):
+        """rarely used argument forms of the constructor (None = all defaults)"""
+        if rng.random() < 0.6:
+            return None
+        o = {}
+        u = rng.random()
+        if u < 0.45:
+            o["phy_dt"] = rng.choice(["uint32", "uint64", "uint16", "int32", "uint32"])
+            if rng.random() < 0.5:
+                o["chr_dt"] = rng.choice(["uint8", "int8", "uint16", "int32", "uint64"])
+        elif u < 0.6:
+            o["strided"] = True
+        elif u < 0.8:
+            o["via"] = rng.choice(["pandas", "pandas_cM"])
+        if cls == "ext" and rng.random() < 0.3:
+            o["names_none"] = True
+        return o or None
+
+    def _gen_map(self, rng, nchr=None, labels=None, like=None, mopts=None, nm_choices=None, plain=False):
         """`like`: rows of another map; chromosomes shared with it get their markers in the same physical
-        region (so that a matrix laid out for one map is not extrapolated absurdly far on the other)"""
+        region (so that a matrix laid out for one map is not extrapolated absurdly far on the other).
+        `mopts`: constructor options the rows must be compatible with (unsigned / narrow dtypes)"""
+        mo = mopts or {}
         nchr = nchr or rng.choice([1, 2, 2, 3, 3, 4, 5])
-        labels = list(labels) if labels is not None else rng.sample([-2, 0, 1, 2, 3, 4, 5, 7, 9, 12, 20], nchr)
+        pool = [-2, 0, 1, 2, 3, 4, 5, 7, 9, 12, 20]
+        if str(mo.get("chr_dt", "int64")).startswith("u"):
+            pool = [c for c in pool if c >= 0]
+        labels = list(labels) if labels is not None else rng.sample(pool, nchr)
         rows = []
         congruent = rng.random() < 0.7
+        pmax = {"uint16": 60000, "int32": 2 ** 31 - 100, "uint32": 2 ** 32 - 100}.get(mo.get("phy_dt"), 2 ** 53)
+        # magnitudes: a large common physical offset (1e9 + small steps), genetic positions with a large common
+        # offset and steps down to 2^-30 (differences stay exact in binary64)
+        wm = rng.random()
+        common = 0 if wm < 0.55 else rng.choice([10 ** 9, 4 * 10 ** 9, 25000])
+        mixed = wm >= 0.8     # chromosomes of very different magnitudes (a "combined sort key" must survive them)
+        # (no common genetic offset here: interpolating 25000 + tiny steps at non-knots loses the steps to
+        # rounding, which is a property of binary64, not of the code; offsets are exercised in the gdist kind)
+        gscale = rng.choice([64, 64, 64, 64, 2 ** 17, 2 ** 27, 2 ** 30])
+        if mo.get("via") == "pandas_cM":
+            gscale = 64
+        goff = 0
+        if plain:
+            # (quadratic / cubic spline fitting is a linear solve: keep it well conditioned — the clause checked for
+            # those kinds is about WHICH values are returned, not about the conditioning of scipy's solver)
+            common, mixed, gscale = 0, False, 64
         for c in labels:
-            nm = rng.choice([2, 2, 3, 3, 4, 5, 6, 8])
+            nm = rng.choice(nm_choices or [2, 2, 3, 3, 4, 5, 6, 8])
             span = rng.choice([10, 40, 100, 1000, 1000000])
             ref = sorted(int(r[1]) for r in (like or []) if r[0] == c)
             if ref:
-                lo, hi = ref[0] - 5, max(ref[-1] + 5, ref[0] - 5 + nm)
+                lo, hi = max(1, ref[0] - 5), max(ref[-1] + 5, ref[0] - 5 + nm, nm + 1)
                 phys = sorted(rng.sample(range(lo, hi + 1), nm))
             else:
-                phys = sorted(rng.sample(range(1, span * nm + 2), nm))
+                offset = rng.choice([0, 0, 10 ** 6, 10 ** 9, 4 * 10 ** 9, 10 ** 12, 10 ** 15]) if mixed else common
+                if span * nm + 2 + offset >= pmax:
+                    span, off = min(span, 100), 0
+                else:
+                    off = offset
+                phys = sorted(off + x for x in rng.sample(range(1, span * nm + 2), nm))
+                if mixed and off and rng.random() < 0.4:
+                    # a WIDE chromosome: some of its markers near the origin, the others at the offset
+                    kk = rng.randint(1, nm - 1)
+                    phys = sorted([x - off for x in phys[:kk]] + phys[kk:])
             if congruent:
                 g = sorted(rng.randint(0, 192) for _ in range(nm))
                 if rng.random() < 0.6:
@@ -139,11 +261,44 @@ class C11(Prop):
             else:
                 g = [rng.randint(0, 192) for _ in range(nm)]
             for p, x in zip(phys, g):
-                rows.append([c, p, canon.enc(Fraction(x, 64)), 0])
+                rows.append([c, p, canon.enc(goff + Fraction(x, gscale)), 0])
         rng.shuffle(rows)
+        # partially ordered inputs: chromosome blocks in ascending order with the rows shuffled inside them,
+        # fully sorted, fully reversed (what "already in order" shortcuts look at)
+        w = rng.random()
+        if w < 0.2:
+            rows.sort(key=lambda r: r[0])
+        elif w < 0.3:
+            rows.sort(key=lambda r: (r[0], int(r[1])))
+        elif w < 0.4:
+            rows.sort(key=lambda r: (-r[0], -int(r[1])))
+        elif w < 0.45:
+            rows.sort(key=lambda r: (r[0], -int(r[1])))
         for t, r in enumerate(rows):
             r[3] = t
         return rows
+
+    @staticmethod
+    def _gen_slice(rng, n):
+        """python slice bounds (st, sp) over an array of length n: mostly a proper, non-empty part of the array that
+        starts inside it; each bound written as a non-negative index, a negative one, None, or beyond the end"""
+        if n < 2 or rng.random() < 0.12:
+            return rng.choice([None, 0, n, n + 2, -n - 1]), rng.choice([None, 0, n, n + 2, -1])
+        i = rng.randrange(0, n - 1)
+        j = rng.randrange(i + 1, n + 1)
+        st = rng.choice([i, i, i - n] + ([None] if i == 0 else []))
+        sp = rng.choice([j, j, j - n if j < n else n + 2] + ([None] if j == n else []))
+        return st, sp
+
+    @staticmethod
+    def _gen_perm(rng, n):
+        """a row order different from the supplied one (whenever there is one)"""
+        perm = list(range(n))
+        for _ in range(5):
+            rng.shuffle(perm)
+            if perm != list(range(n)):
+                break
+        return perm
 
     def _gen_queries(self, rng, rows, nq=None, sort=False):
         chrs = sorted({r[0] for r in rows})
@@ -172,6 +327,116 @@ class C11(Prop):
         if sort:
             q.sort()
         return [a for a, _ in q], [b for _, b in q]
+
+    def _gen_derived(self, rng, rows, big=None):
+        """marker set of a map derived by interp_gmap: distinct positions, >= 2 per chromosome, only chromosomes
+        of the parent, in sorted or shuffled order; `big`: at least as many markers as the parent"""
+        chrs = sorted({r[0] for r in rows})
+        keep = chrs if rng.random() < 0.7 or len(chrs) == 1 else rng.sample(chrs, rng.randint(1, len(chrs) - 1))
+        big = rng.random() < 0.75 if big is None else big
+        q = []
+        for c in keep:
+            ph = sorted(int(r[1]) for r in rows if r[0] == c)
+            k = rng.choice([len(ph), len(ph) + 1, len(ph) + 2, 6]) if big else rng.choice([2, 2, 3, max(2, len(ph) - 1)])
+            lo, hi = ph[0] - 3, max(ph[-1] + 3, ph[0] - 3 + 2 * k)
+            xs = set(rng.sample(ph, min(len(ph), rng.randint(0, 2))))
+            while len(xs) < k:
+                xs.add(rng.randint(lo, hi))
+            q += [(c, x) for x in xs]
+        w = rng.random()
+        if w < 0.4:
+            q.sort()
+        elif w < 0.6:
+            q.sort(key=lambda t: (-t[0], t[1]))          # chromosome blocks contiguous, in descending order
+        else:
+            rng.shuffle(q)
+        return [a for a, _ in q], [b for _, b in q]
+
+    def _gen_edit(self, rng, cls):
+        """history of calls on ONE map object (remove / select in every index form, remove_discrepancies, prune,
+        build_spline, group, re-assignment of vrnt_phypos / vrnt_genpos, copy / deepcopy, interp_gmap which
+        continues on the DERIVED map), interrogated after every call"""
+        mo = self._gen_mopts(rng, cls) or {}
+        if rng.random() < 0.08:
+            mo["no_spline"] = True
+        rows = self._gen_map(rng, mopts=mo)
+        n_est = len(rows)
+        ops = []
+        derived = rng.random() < 0.45
+        nops = rng.randint(1, 4)
+        at = rng.randrange(nops) if derived else -1
+        for i in range(nops):
+            w = rng.random()
+            if i == at:
+                qchr, qphy = self._gen_derived(rng, rows)
+                ops.append({"op": "interp_gmap", "qchr": qchr, "qphy": qphy})
+                n_est = len(qchr)
+                if rng.random() < 0.8:
+                    ops.append({"op": "build"})
+            elif w < 0.25 and n_est > 2:
+                form = rng.choice(["list", "neg", "mask", "slice", "slice", "int", "pylist"])
+                if form == "slice":
+                    a_ = rng.randrange(n_est)
+                    st = rng.choice([1, 1, 2, 3])
+                    idx = list(range(a_, min(n_est, a_ + rng.randint(1, 3) * st), st))[:n_est - 1]
+                    o = {"op": "remove", "idx": idx, "form": "slice", "slice": [idx[0], idx[-1] + 1, st]}
+                elif form == "int":
+                    o = {"op": "remove", "idx": [rng.randrange(n_est)], "form": "int"}
+                else:
+                    kk = rng.randint(1, min(2, n_est - 1))
+                    o = {"op": "remove", "idx": sorted(rng.sample(range(n_est), kk)), "form": form}
+                ops.append(o)
+                n_est -= len(o["idx"])
+            elif w < 0.42 and n_est > 2:
+                form = rng.choice(["list", "neg", "mask", "slice", "slice", "pylist"])
+                kk = rng.randint(max(1, n_est - 2), n_est)
+                if form == "slice":
+                    a_ = rng.randrange(0, 2)
+                    st = rng.choice([1, 2, -1, -1, -2])
+                    if st > 0:
+                        sl = [a_, n_est - rng.randrange(0, 2), st]
+                    else:
+                        sl = [n_est - 1 - a_, None, st]
+                    idx = list(range(n_est))[slice(*sl)]
+                    o = {"op": "select", "idx": idx, "form": "slice", "slice": sl}
+                else:
+                    idx = rng.sample(range(n_est), kk)
+                    if form == "mask":
+                        idx.sort()
+                    o = {"op": "select", "idx": idx, "form": form}
+                if o["idx"]:
+                    ops.append(o)
+                    n_est = len(o["idx"])
+            elif w < 0.55:
+                ops.append({"op": "rd"})
+                n_est = 0         # size unknown from here on: no index-based calls any more
+            elif w < 0.65 and cls == "ext" and not (derived and i > at):
+                mode = rng.choice(["nt", "M", "both"])
+                ops.append({"op": "prune",
+                            "nt": None if mode == "M" else rng.choice([3, 7, 20, 50, 200, 5000, 300000]),
+                            "M": None if mode == "nt" else canon.enc(Fraction(rng.choice([1, 2, 4, 8, 16, 48]), 16))})
+                n_est = 0
+            elif w < 0.75:
+                ops.append({"op": "assign", "mode": rng.choice(["gen_affine", "phy_reflect", "phy_rotate", "gen_reverse"])})
+                if rng.random() < 0.7:
+                    ops.append({"op": "build"})
+            elif w < 0.82:
+                ops.append({"op": "copy", "deep": rng.random() < 0.5})
+            elif w < 0.86:
+                ops.append({"op": "group"})
+            elif w < 0.9:
+                if n_est > 1 and rng.random() < 0.7:
+                    ops.append({"op": "reorder", "idx": rng.sample(range(n_est), n_est)})
+                else:
+                    ops.append({"op": "ungroup"})
+            else:
+                ops.append({"op": "build"})
+        qchr, qphy = self._gen_queries(rng, rows, nq=rng.randint(2, 6))
+        case = {"kind": "edit", "cls": cls, "auto_group": rng.random() < 0.8, "rows": rows,
+                "ops": ops, "qchr": qchr, "qphy": qphy}
+        if mo:
+            case["mopts"] = mo
+        return case
 
     def corpus(self):
         rows = [[2, 10, 0, 0], [1, 30, "1/2", 1], [1, 10, "1/10", 2], [2, 40, "9/10", 3], [1, 20, "1/4", 4],
@@ -251,6 +516,67 @@ class C11(Prop):
                         "mchr": [1, 1, 2], "mphy": [12, 25, 35],
                         "preset": {"genpos": [9, 8, 7], "xoprob": None},
                         "steps": [{"op": "genpos", "map": 0, "fn": fn}, {"op": "xoprob", "map": 1, "fn": fn}]})
+        # ---- round 3 -------------------------------------------------------------------------------------
+        # magnitudes around tolerance-style shortcuts
+        tiny = [0] + [canon.enc(Fraction(float(x))) for x in (1e-12, 1e-8, 1e-6, 1e-5, 5e-5, 9.9e-5, 1e-4, 1.0001e-4,
+                                                                 1e-3)] + ["1/16384", "1/131072", "1/8", "inf"]
+        for fn in ("haldane", "kosambi"):
+            out.append({"kind": "mapfn", "fn": fn, "d": tiny})
+        big_off = [canon.enc(25000 + Fraction(x, 2 ** 30)) for x in (0, 1, 9, 9, 200)]
+        for cls in ("std", "ext"):
+            # chromosome label 0 first, negative labels, descending label order; tiny steps on a large offset, a tie
+            out.append({"kind": "gdist", "cls": cls, "chr": [0, 0, -3, -3, -3], "gen": big_off, "slices": None})
+            out.append({"kind": "gdist", "cls": cls, "chr": [0, 0, 0, 7, 7], "gen": big_off,
+                        "slices": {"ast": -4, "asp": None, "rst": -3, "rsp": 9, "cst": None, "csp": -1},
+                        "aopts": {"chr_dt": "uint8", "strided": True}})
+        # unsigned / narrow dtypes with rows that are "almost in order" (chromosome blocks ascending, shuffled inside)
+        rows_u = [[1, 300, "1/4", 0], [1, 100, 0, 1], [1, 400, "3/8", 2], [1, 200, "1/8", 3],
+                  [2, 400, "3/4", 4], [2, 200, "1/4", 5], [2, 100, 0, 6], [2, 300, "5/16", 7]]
+        for cls, mo in (("std", {"phy_dt": "uint32"}), ("ext", {"phy_dt": "uint64", "chr_dt": "uint8"}),
+                        ("std", {"phy_dt": "int32", "chr_dt": "int8", "strided": True}),
+                        ("std", {"via": "pandas"}), ("ext", {"via": "pandas_cM", "names_none": True})):
+            out.append({"kind": "interp", "cls": cls, "auto_group": True, "rows": rows_u, "mopts": mo,
+                        "perm": [6, 2, 5, 0, 3, 7, 1, 4], "qchr": [1, 1, 1, 2, 2, 2, 3], "qphy": [150, 275, 390, 150, 275, 400, 7],
+                        "qsorted": True})
+        # D110: derived map shorter than its parent -> interp_genpos of the derived map raises
+        rows_p = [[1, 10, 0, 0], [1, 20, "1/8", 1], [1, 30, "1/4", 2], [2, 10, 0, 3], [2, 20, "3/8", 4], [2, 30, "1/2", 5]]
+        for cls in ("std", "ext"):
+            out.append({"kind": "edit", "cls": cls, "auto_group": True, "rows": rows_p,
+                        "ops": [{"op": "interp_gmap", "qchr": [1, 1, 2, 2, 2], "qphy": [12, 25, 11, 15, 28]}],
+                        "qchr": [1, 2], "qphy": [15, 25]})
+        # derived maps at least as long as the parent (nothing raises): rebuilt spline, regrouping, editing, all laws
+        rows_q = [[2, 250, "5/16", 0], [1, 300, "1/2", 1], [1, 100, 0, 2], [2, 100, 0, 3], [1, 400, "5/8", 4],
+                  [2, 300, "3/8", 5], [1, 200, "1/8", 6]]
+        dq = {"qchr": [1, 1, 1, 1, 1, 1, 2, 2], "qphy": [150, 220, 280, 330, 390, 450, 120, 280]}
+        du = {"qchr": [2, 1, 1, 2, 1, 1, 2, 1], "qphy": [280, 330, 150, 120, 450, 220, 200, 390]}
+        for cls in ("std", "ext"):
+            out.append({"kind": "edit", "cls": cls, "auto_group": True, "rows": rows_q,
+                        "ops": [{"op": "interp_gmap", **dq}, {"op": "build"}, {"op": "rd"}, {"op": "build"}],
+                        "qchr": [1, 2, 2, 3], "qphy": [160, 200, 90, 5]})
+            out.append({"kind": "edit", "cls": cls, "auto_group": True, "rows": rows_q,
+                        "ops": [{"op": "interp_gmap", **du}, {"op": "build"}, {"op": "group"}, {"op": "build"},
+                                {"op": "remove", "idx": [0], "form": "neg"}, {"op": "build"}],
+                        "qchr": [1, 2, 2, 3], "qphy": [160, 200, 90, 5]})
+            out.append({"kind": "edit", "cls": cls, "auto_group": False, "rows": rows_q,
+                        "ops": [{"op": "build"}, {"op": "interp_gmap", **du}, {"op": "interp_gmap", **dq}, {"op": "build"}],
+                        "qchr": [1, 2], "qphy": [160, 200]})
+            # re-assigned position arrays (metadata kept), copies, every index form, no spline at construction
+            out.append({"kind": "edit", "cls": cls, "auto_group": True, "rows": rows_q,
+                        "ops": [{"op": "assign", "mode": "phy_reflect"}, {"op": "build"}, {"op": "assign", "mode": "gen_reverse"},
+                                {"op": "build"}, {"op": "rd"}, {"op": "build"}],
+                        "qchr": [1, 2], "qphy": [160, 200]})
+            out.append({"kind": "edit", "cls": cls, "auto_group": True, "rows": rows_q,
+                        "ops": [{"op": "copy", "deep": False}, {"op": "remove", "idx": [1, 2], "form": "mask"}, {"op": "build"},
+                                {"op": "copy", "deep": True}, {"op": "assign", "mode": "gen_affine"}, {"op": "build"}],
+                        "qchr": [1, 2], "qphy": [160, 200]})
+            out.append({"kind": "edit", "cls": cls, "auto_group": True, "rows": rows_q, "mopts": {"no_spline": True},
+                        "ops": [{"op": "select", "idx": [6, 5, 4, 3, 2, 1], "form": "slice", "slice": [6, None, -1]},
+                                {"op": "remove", "idx": [2], "form": "int"}, {"op": "build"},
+                                {"op": "select", "idx": [0, 1, 3, 4], "form": "pylist"}, {"op": "build"}],
+                        "qchr": [1, 2], "qphy": [160, 200]})
+        # sizes past 1024 markers per map / per chromosome
+        out.append({"kind": "big", "cls": "std", "counts": [700, 420], "seed": 7, "fn": "haldane"})
+        out.append({"kind": "big", "cls": "ext", "counts": [130, 1100], "seed": 8, "fn": "kosambi", "mopts": {"phy_dt": "uint32"}})
         return out
 
     def generate(self, rng, n, tier):
@@ -262,17 +588,32 @@ class C11(Prop):
                 pool = [0, 0, Fraction(1, 2 ** 40), Fraction(1, 1024), Fraction(1, 64), Fraction(1, 8), Fraction(1, 4),
                         Fraction(1, 2), 1, Fraction(3, 2), 2, 3, Fraction(9, 2), 6, 7, Fraction(15, 2), 10, 12, 14, 15,
                         20, 40, 700, "inf"]
+                # magnitudes around the thresholds of tolerance-style shortcuts (1e-8, 1e-5, 1e-4, 1e-3), as the
+                # doubles nearest to the decimal values and as neighbouring dyadics
+                tiny = [Fraction(float(x)) for x in (1e-12, 1e-8, 9.9e-9, 1e-6, 5e-6, 1e-5, 2e-5, 5e-5, 9.9e-5, 9.99999e-5,
+                                                     1e-4, 1.0001e-4, 2e-4, 5e-4, 1e-3, 1e-2)] + \
+                       [Fraction(1, 2 ** e) for e in (10, 12, 13, 14, 15, 17, 20, 27, 30)]
                 k = rng.randint(1, 10)
-                d = [rng.choice(pool) if rng.random() < 0.6 else Fraction(rng.randint(0, 16 * 256), 256)
-                     for _ in range(k)]
+                w = rng.random()
+                if w < 0.3:
+                    d = [rng.choice(tiny) for _ in range(k)] + [rng.choice(pool)]
+                else:
+                    d = [rng.choice(pool) if rng.random() < 0.6 else Fraction(rng.randint(0, 16 * 256), 256)
+                         for _ in range(k)]
                 out.append({"kind": "mapfn", "fn": rng.choice(["haldane", "kosambi"]),
-                            "d": [x if isinstance(x, str) else canon.enc(Fraction(x)) for x in d]})
+                            "d": [x if isinstance(x, str) else canon.enc(Fraction(x)) for x in d],
+                            **({"form": rng.choice(["col", "strided", "fortran", "scalar"])} if rng.random() < 0.35 else {})})
             elif u < 0.35:
                 nrun = rng.choice([1, 2, 2, 3, 4])
-                labels = rng.sample([0, 1, 2, 3, 5, 8, 13], nrun)
+                labels = rng.sample([-7, -1, 0, 0, 1, 2, 3, 5, 8, 13, 255, 70000], nrun)
+                labels = list(dict.fromkeys(labels)) or [0]
                 if rng.random() < 0.7:
                     labels.sort()
                 chr_, gen = [], []
+                # magnitudes: tiny steps (2^-30 ~ 1e-9, 2^-27 ~ 7e-9, 2^-17 ~ 8e-6) on a large common offset, exact ties
+                gscale = rng.choice([64, 64, 64, 2 ** 17, 2 ** 27, 2 ** 30])
+                # (offset + step must stay exactly representable: 1e9 needs 30 bits, so steps down to 2^-17 only)
+                goff = rng.choice([0, 0, 25000, 3] + ([10 ** 9] if gscale <= 2 ** 17 else []))
                 for c in labels:
                     nm = rng.choice([1, 2, 3, 3, 4, 6])
                     g = [rng.randint(0, 256) for _ in range(nm)]
@@ -280,7 +621,7 @@ class C11(Prop):
                         g.sort()
                     for x in g:
                         chr_.append(c)
-                        gen.append("nan" if rng.random() < 0.04 else canon.enc(Fraction(x, 64)))
+                        gen.append("nan" if rng.random() < 0.04 else canon.enc(goff + Fraction(x, gscale)))
                 if rng.random() < 0.12 and len(chr_) >= 3:
                     # labels NOT contiguous (outside the documented precondition of gdist1g): only the
                     # literal loop model is compared there, on the cells the loop writes
@@ -290,45 +631,29 @@ class C11(Prop):
                 sl = None
                 if rng.random() < 0.4:
                     n_ = len(chr_)
-                    pick = lambda: rng.choice([None, rng.randint(0, n_)])
-                    sl = {k: pick() for k in ("ast", "asp", "rst", "rsp", "cst", "csp")}
-                out.append({"kind": "gdist", "cls": cls, "chr": chr_, "gen": gen, "slices": sl})
-            elif u < 0.47:
-                # history of editing calls on ONE map object (remove / select / remove_discrepancies /
-                # build_spline), interrogated after every call
-                rows = self._gen_map(rng)
-                n0 = len(rows)
-                ops = []
-                n_est = n0
-                for _ in range(rng.randint(1, 4)):
-                    w = rng.random()
-                    if w < 0.3 and n_est > 2:
-                        kk = rng.randint(1, min(2, n_est - 1))
-                        ops.append({"op": "remove", "idx": sorted(rng.sample(range(n_est), kk))})
-                        n_est -= kk
-                    elif w < 0.5 and n_est > 2:
-                        kk = rng.randint(max(1, n_est - 2), n_est)
-                        ops.append({"op": "select", "idx": rng.sample(range(n_est), kk)})
-                        n_est = kk
-                    elif w < 0.7:
-                        ops.append({"op": "rd"})
-                        n_est = 0         # size unknown from here on: no index-based calls any more
-                    elif w < 0.85 and cls == "ext":
-                        mode = rng.choice(["nt", "M", "both"])
-                        ops.append({"op": "prune",
-                                    "nt": None if mode == "M" else rng.choice([3, 7, 20, 50, 200, 5000, 300000]),
-                                    "M": None if mode == "nt" else canon.enc(Fraction(rng.choice([1, 2, 4, 8, 16, 48]), 16))})
-                        n_est = 0
-                    else:
-                        ops.append({"op": "build"})
-                qchr, qphy = self._gen_queries(rng, rows, nq=rng.randint(2, 8))
-                out.append({"kind": "edit", "cls": cls, "auto_group": rng.random() < 0.8, "rows": rows,
-                            "ops": ops, "qchr": qchr, "qphy": qphy})
+                    # python slice bounds: None, non-negative, negative (counted from the end), beyond the end
+                    sl = {}
+                    for a_, b_ in (("ast", "asp"), ("rst", "rsp"), ("cst", "csp")):
+                        sl[a_], sl[b_] = self._gen_slice(rng, n_)
+                gc = {"kind": "gdist", "cls": cls, "chr": chr_, "gen": gen, "slices": sl}
+                if rng.random() < 0.3:
+                    gc["aopts"] = {"chr_dt": rng.choice(["int64", "int32", "int8", "uint8", "uint64"]),
+                                   "strided": rng.random() < 0.5}
+                    if gc["aopts"]["chr_dt"].startswith("u"):
+                        gc["chr"] = [abs(c) for c in chr_]
+                    if gc["aopts"]["chr_dt"].endswith("int8"):
+                        gc["chr"] = [c % 100 for c in gc["chr"]]
+                    if not _contiguous(chr_) or not _contiguous(gc["chr"]):
+                        gc["chr"] = chr_
+                        gc["aopts"]["chr_dt"] = "int64"
+                out.append(gc)
             elif u < 0.53:
+                out.append(self._gen_edit(rng, cls))
+            elif u < 0.57:
                 # spline kinds other than the default: step kinds and slinear through the Lean model, quadratic and
                 # cubic against the kind-independent part of the clause only
                 kind = rng.choice(["slinear", "previous", "next", "zero", "nearest", "nearest-up", "quadratic", "cubic"])
-                rows = self._gen_map(rng)
+                rows = self._gen_map(rng, plain=kind in ("quadratic", "cubic"))
                 if kind in ("quadratic", "cubic"):
                     # these need >= 3 / 4 knots per chromosome: top every chromosome up to 5 markers
                     extra = []
@@ -342,11 +667,10 @@ class C11(Prop):
                     for t, r in enumerate(rows):
                         r[3] = t
                 qchr, qphy = self._gen_queries(rng, rows)
-                perm = list(range(len(rows)))
-                rng.shuffle(perm)
+                perm = self._gen_perm(rng, len(rows))
                 out.append({"kind": "spline", "cls": cls, "spline_kind": kind, "rows": rows, "perm": perm,
                             "qchr": qchr, "qphy": qphy})
-            elif u < 0.56:
+            elif u < 0.60:
                 # duplicated sort keys with different riding columns: the stored order shows the STABILITY of the
                 # three-pass lexsort (extended class only; such maps are outside the property's quantifier)
                 rows = self._gen_map(rng, nchr=rng.choice([1, 2]))
@@ -362,15 +686,25 @@ class C11(Prop):
                     r[3] = t
                 out.append({"kind": "sortdup", "cls": "ext", "rows": rows})
             elif u < 0.75:
-                rows = self._gen_map(rng)
+                mo = self._gen_mopts(rng, cls)
+                rows = self._gen_map(rng, mopts=mo)
                 qsorted = rng.random() < 0.5
                 qchr, qphy = self._gen_queries(rng, rows, sort=qsorted)
-                perm = list(range(len(rows)))
-                rng.shuffle(perm)
-                out.append({"kind": "interp", "cls": cls, "auto_group": rng.random() < 0.7, "rows": rows,
-                            "perm": perm, "qchr": qchr, "qphy": qphy, "qsorted": qsorted})
+                perm = self._gen_perm(rng, len(rows))
+                ic = {"kind": "interp", "cls": cls, "auto_group": rng.random() < 0.7, "rows": rows,
+                      "perm": perm, "qchr": qchr, "qphy": qphy, "qsorted": qsorted,
+                      **({"mopts": mo} if mo else {})}
+                if rng.random() < 0.3:
+                    n_ = len(qchr)
+                    ic["pslices"] = {}
+                    for a_, b_ in (("ast", "asp"), ("rst", "rsp"), ("cst", "csp")):
+                        ic["pslices"][a_], ic["pslices"][b_] = self._gen_slice(rng, n_)
+                if rng.random() < 0.3:
+                    ic["qdt"] = rng.choice(["int32", "uint32", "uint64", "int64"])
+                out.append(ic)
             else:
-                rows = self._gen_map(rng)
+                mo = self._gen_mopts(rng, cls)
+                rows = self._gen_map(rng, mopts=mo)
                 mchr, mphy = self._gen_queries(rng, rows, nq=rng.randint(1, 14))
                 # variants of a matrix: distinct (chr, phy) so that the grouping order is determined
                 seen, c2, p2 = set(), [], []
@@ -381,14 +715,15 @@ class C11(Prop):
                         p2.append(p)
                 fn = rng.choice(["haldane", "kosambi"])
                 case = {"kind": "xoprob", "cls": cls, "fn": fn,
-                        "phased": rng.random() < 0.5, "rows": rows, "mchr": c2, "mphy": p2}
+                        "phased": rng.random() < 0.5, "rows": rows, "mchr": c2, "mphy": p2,
+                        **({"mopts": mo} if mo else {})}
                 if rng.random() < 0.7:
                     # history on ONE matrix object: several placements on two different maps / map functions,
                     # optionally starting from unrelated preset positions / probabilities
                     labels = sorted({r[0] for r in rows})
                     if rng.random() < 0.3 and len(labels) > 1:
                         labels = labels[:-1] + [31]        # one chromosome replaced by another one
-                    case["rows2"] = self._gen_map(rng, labels=labels, like=rows)
+                    case["rows2"] = self._gen_map(rng, labels=labels, like=rows, mopts=mo)
                     nst = rng.randint(1, 4)
                     steps = [{"op": rng.choice(["xoprob", "xoprob", "genpos"]), "map": rng.randint(0, 1),
                               "fn": rng.choice(["haldane", "kosambi"])} for _ in range(nst)]
@@ -411,16 +746,42 @@ class C11(Prop):
         if k == "mapfn":
             fn = _mapfn(case["fn"])
             d = numpy.array([_f(x) for x in case["d"]], dtype=float)
+            form = case.get("form")
+            # "an array of any shape": column / row matrix, non-contiguous view, Fortran-ordered square, 0-d scalars
+            if form == "col":
+                d = d.reshape(-1, 1)
+            elif form == "strided":
+                d = _strided(d)
+            elif form == "fortran":
+                # Fortran-ordered rectangle: cell (i, j) holds distance number (i + 2 j) mod k
+                k_ = len(d)
+                ix = (numpy.arange(k_)[:, None] + 2 * numpy.arange(k_ + 1)[None, :]) % k_     # k x (k+1), not symmetric
+                d = numpy.asfortranarray(d[ix])
             d0 = d.copy()
-            r = fn.mapfn(d)
-            dinv = fn.invmapfn(r)
-            return {"r": canon.enc(r), "dinv": canon.enc(dinv),
+            if form == "scalar":
+                r = numpy.array([fn.mapfn(numpy.float64(x)) for x in d], dtype=float)
+                dinv = numpy.array([fn.invmapfn(numpy.float64(x)) for x in r], dtype=float)
+                shape_ok = True
+            else:
+                r = fn.mapfn(d)
+                dinv = fn.invmapfn(r)
+                shape_ok = r.shape == d.shape and dinv.shape == d.shape
+                if form == "fortran" and shape_ok:
+                    # column 0 holds the distances in order; every other cell must carry the answer column 0 gives
+                    # for the same distance
+                    shape_ok = bool(numpy.array_equal(r, r[:, 0][ix], equal_nan=True) and
+                                    numpy.array_equal(dinv, dinv[:, 0][ix], equal_nan=True))
+                    r, dinv = r[:, 0], dinv[:, 0]
+            return {"r": canon.enc(numpy.ravel(r)), "dinv": canon.enc(numpy.ravel(dinv)), "shape_ok": bool(shape_ok),
                     "input_untouched": bool(numpy.array_equal(d, d0))}
         if k == "gdist":
             base = [[1, 10, 0, 0], [1, 20, "1/2", 1]]
             g = _build_map(case["cls"], base)
-            chr_ = numpy.array(case["chr"], dtype=int)
+            ao = case.get("aopts") or {}
+            chr_ = numpy.array(case["chr"], dtype=ao.get("chr_dt", "int64"))
             gen = numpy.array([_f(x) for x in case["gen"]], dtype=float)
+            if ao.get("strided") and len(chr_):
+                chr_, gen = _strided(chr_), _strided(gen)
             obs = {"d1": canon.enc(g.gdist1g(chr_, gen)), "d2": canon.enc(g.gdist2g(chr_, gen))}
             sl = case.get("slices")
             if sl:
@@ -429,7 +790,8 @@ class C11(Prop):
             return obs
         if k == "interp":
             rows = case["rows"]
-            g = _build_map(case["cls"], rows, case["auto_group"])
+            mo = case.get("mopts")
+            g = _build_map(case["cls"], rows, case["auto_group"], mo)
             stored0, tags_ok0 = _stored(case["cls"], g)     # before any call that may group as a side effect
             meta0 = None
             if g.is_grouped():
@@ -437,16 +799,25 @@ class C11(Prop):
                          zip(g.vrnt_chrgrp_name, g.vrnt_chrgrp_stix, g.vrnt_chrgrp_spix, g.vrnt_chrgrp_len)]
             qchr = numpy.array(case["qchr"], dtype=int)
             qphy = numpy.array(case["qphy"], dtype=int)
+            qd = case.get("qdt")
+            if qd and min(case["qphy"]) >= 0 and min(case["qchr"]) >= 0 and \
+                    max(case["qphy"]) + 2 < numpy.iinfo(qd).max and max(case["qchr"]) < 127:
+                qphy = qphy.astype(qd)
+                qchr = qchr.astype("uint8" if qd.startswith("u") else "int8")
+                if qd == "uint64":
+                    qchr, qphy = _strided(qchr), _strided(qphy)
             out = g.interp_genpos(qchr, qphy)
             obs = {"stored": stored0, "tags_ok": tags_ok0, "meta": meta0, "out": canon.enc(out)}
             if case["auto_group"]:
                 obs["congruence"] = canon.enc(g.congruence())
                 obs["is_congruent"] = bool(g.is_congruent())
             # a second map object from the same rows supplied in another order
-            g2 = _build_map(case["cls"], [rows[i] for i in case["perm"]], case["auto_group"])
+            g2 = _build_map(case["cls"], [rows[i] for i in case["perm"]], case["auto_group"], mo)
             stored2, tags_ok2 = _stored(case["cls"], g2)
             obs["out2"] = canon.enc(g2.interp_genpos(qchr, qphy))
             obs["stored2"] = stored2
+            if case["auto_group"]:
+                obs["is_congruent2"] = bool(g2.is_congruent())
             obs["tags_ok"] = tags_ok0 and tags_ok2
             # interp_gmap: new map object carrying the interpolated positions
             if case["cls"] == "std":
@@ -459,11 +830,23 @@ class C11(Prop):
             obs["d2p"] = canon.enc(g.gdist2p(qchr, qphy))
             if case["qsorted"]:
                 obs["d1p"] = canon.enc(g.gdist1p(qchr, qphy))
+            # the optional slice arguments of gdist1p / gdist2p
+            sl = case.get("pslices")
+            if sl:
+                obs["d2ps"] = canon.enc(g.gdist2p(qchr, qphy, sl["rst"], sl["rsp"], sl["cst"], sl["csp"]))
+                if case["qsorted"]:
+                    obs["d1ps"] = canon.enc(g.gdist1p(qchr, qphy, sl["ast"], sl["asp"]))
+            # the SAME query array object edited in place and handed in again (an answer remembered per array
+            # object would be stale)
+            qmut = qphy.copy()
+            g.interp_genpos(qchr, qmut)
+            qmut += 1
+            obs["out_inplace"] = canon.enc(g.interp_genpos(qchr, qmut))
             # distances of the stored map itself
             # distances of the stored map itself (the constructor grouped it, so its own label array must
             # meet the precondition of gdist1g)
             if case["auto_group"]:
-                g3 = _build_map(case["cls"], rows, True)
+                g3 = _build_map(case["cls"], rows, True, mo)
                 obs["d1_stored"] = canon.enc(g3.gdist1g(g3.vrnt_chrgrp, g3.vrnt_genpos))
                 obs["d2_stored"] = canon.enc(g3.gdist2g(g3.vrnt_chrgrp, g3.vrnt_genpos))
                 obs["stored3"] = _stored(case["cls"], g3)[0]
@@ -492,54 +875,15 @@ class C11(Prop):
             stored, tags_ok = _stored(case["cls"], g)
             return {"stored": stored, "tags_ok": tags_ok}
         if k == "edit":
-            g = _build_map(case["cls"], case["rows"], case["auto_group"])
-            qchr = numpy.array(case["qchr"], dtype=int)
-            qphy = numpy.array(case["qphy"], dtype=int)
-            done, snaps = [], []
-            built_from, _ = _stored(case["cls"], g)        # rows the current spline was built from
-
-            def counts_ok():
-                _, cnt = numpy.unique(g.vrnt_chrgrp, return_counts=True)
-                return len(cnt) > 0 and bool((cnt >= 2).all())
-            for o in case["ops"]:
-                n = len(g.vrnt_chrgrp)
-                if o["op"] == "remove":
-                    if not o["idx"] or max(o["idx"]) >= n or n - len(o["idx"]) < 1:
-                        continue
-                    g.remove(numpy.array(o["idx"], dtype=int))
-                elif o["op"] == "select":
-                    if not o["idx"] or max(o["idx"]) >= n:
-                        continue
-                    g.select(numpy.array(o["idx"], dtype=int))
-                elif o["op"] == "rd":
-                    g.remove_discrepancies()
-                elif o["op"] == "prune":
-                    g.prune(nt=o["nt"], M=None if o["M"] is None else _f(o["M"]))
-                elif o["op"] == "build":
-                    if not counts_ok():            # interp1d needs two knots per chromosome
-                        continue
-                    g.build_spline()
-                    built_from, _ = _stored(case["cls"], g)
-                for step in (o, {"op": "interp", "qchr": case["qchr"], "qphy": case["qphy"]}):
-                    if step["op"] == "interp":
-                        outv = canon.enc(g.interp_genpos(qchr, qphy))
-                    else:
-                        outv = None
-                    stored, tags_ok = _stored(case["cls"], g)
-                    meta = None
-                    if g.is_grouped():
-                        meta = [[int(a), int(b), int(c), int(d)] for a, b, c, d in
-                                zip(g.vrnt_chrgrp_name, g.vrnt_chrgrp_stix, g.vrnt_chrgrp_spix, g.vrnt_chrgrp_len)]
-                    done.append(step)
-                    snaps.append({"stored": stored, "tags_ok": tags_ok, "meta": meta, "out": outv,
-                                  "built_from": built_from})
-            # is_congruent() groups an ungrouped map: ask last
-            return {"done": done, "snaps": snaps, "is_congruent": bool(g.is_congruent())}
+            return self._run_edit(case)
+        if k == "big":
+            return self._run_big(case)
         if k == "xoprob":
             m = _mods()
-            maps = [_build_map(case["cls"], case["rows"])]
+            mo = case.get("mopts")
+            maps = [_build_map(case["cls"], case["rows"], True, mo)]
             if case.get("rows2"):
-                maps.append(_build_map(case["cls"], case["rows2"]))
+                maps.append(_build_map(case["cls"], case["rows2"], True, mo))
             g = maps[0]
             fn = _mapfn(case["fn"])
             nv = len(case["mchr"])
@@ -570,13 +914,313 @@ class C11(Prop):
                     gm.interp_genpos(maps[st["map"]])
                 snaps.append(snap())
             qc, qp = gm.vrnt_chrgrp, gm.vrnt_phypos
+            # a SECOND matrix (same shape, other positions) placed on the same maps afterwards, and the maps asked
+            # again: what the first matrix holds must not move (no buffer shared between calls / objects)
+            if case["phased"]:
+                gm2 = m["dpgm"].DensePhasedGenotypeMatrix(numpy.zeros((2, 2, nv), dtype="int8"), vrnt_chrgrp=qc.copy(),
+                                                          vrnt_phypos=qp + 3)
+            else:
+                gm2 = m["dgm"].DenseGenotypeMatrix(numpy.zeros((2, nv), dtype="int8"), vrnt_chrgrp=qc.copy(),
+                                                   vrnt_phypos=qp + 3)
+            gm2.group_vrnt()
+            for mp in maps:
+                gm2.interp_xoprob(mp, fn)
+                mp.interp_genpos(qc, qp + 1)
+            after = snap()
+            alias_ok = after == snaps[-1]
             gp = g.interp_genpos(qc, qp)
-            return {"qchr": canon.enc(qc), "qphy": canon.enc(qp), "snaps": snaps,
+            return {"qchr": canon.enc(qc), "qphy": canon.enc(qp), "snaps": snaps, "alias_ok": alias_ok,
                     "genpos": snaps[-1]["genpos"], "xoprob": snaps[-1]["xoprob"],
                     # the four rprob wrappers of the map-function class on the same variants
                     "r1p": canon.enc(fn.rprob1p(g, qc, qp)), "r2p": canon.enc(fn.rprob2p(g, qc, qp)),
                     "r1g": canon.enc(fn.rprob1g(g, qc, gp)), "r2g": canon.enc(fn.rprob2g(g, qc, gp))}
         raise ValueError(k)
+
+    @staticmethod
+    def _index_arg(o, n):
+        """the index argument of remove / select in the requested form"""
+        idx, form = o["idx"], o.get("form", "list")
+        if form == "neg":
+            return numpy.array([i - n for i in idx], dtype=int)
+        if form == "mask":
+            mk = numpy.zeros(n, dtype=bool)
+            mk[idx] = True
+            return mk
+        if form == "slice":
+            return slice(*o["slice"])
+        if form == "int":
+            return int(idx[0])
+        if form == "pylist":
+            return [int(i) for i in idx]
+        return numpy.array(idx, dtype=int)
+
+    def _run_edit(self, case):
+        cls = case["cls"]
+        mo = case.get("mopts") or {}
+        g = _build_map(cls, case["rows"], case["auto_group"], mo)
+        q0 = list(zip(case["qchr"], case["qphy"]))
+        done, snaps = [], []
+        built_from = None if mo.get("no_spline") else _stored(cls, g)[0]   # rows the current spline was built from
+        kept = []                                   # (object a copy was taken from, its state at that moment)
+        next_tag = [1000]
+
+        def counts_ok():
+            _, cnt = numpy.unique(g.vrnt_chrgrp, return_counts=True)
+            return len(cnt) > 0 and bool((cnt >= 2).all())
+
+        def ask(obj, qs):
+            """interp_genpos with the designed rejection (no spline) and the exceptions numpy raises when the
+            stored metadata does not fit the arrays told apart from everything else"""
+            qc = numpy.array([c for c, _ in qs], dtype=int)
+            qp = numpy.array([x for _, x in qs], dtype=int)
+            if not obj.has_spline():
+                try:
+                    obj.interp_genpos(qc, qp)
+                except (ValueError, RuntimeError) as e:
+                    if "spline not built" in str(e):
+                        return None, None
+                    raise
+                raise AssertionError("interp_genpos answered without a spline")
+            try:
+                return canon.enc(obj.interp_genpos(qc, qp)), None
+            except (ValueError, IndexError) as e:
+                if "spline not built" in str(e):
+                    raise
+                return None, type(e).__name__
+
+        def snap(step, outv, raised):
+            stored, tags_ok = _stored(cls, g)
+            done.append(step)
+            snaps.append({"stored": stored, "tags_ok": tags_ok, "meta": _meta(g), "out": outv, "raised": raised,
+                          "built_from": built_from})
+
+        for o in case["ops"]:
+            n = len(g.vrnt_chrgrp)
+            rec, raised = dict(o), None
+            if o["op"] in ("remove", "select"):
+                idx = o["idx"]
+                if not idx or max(idx) >= n or (o["op"] == "remove" and n - len(set(idx)) < 1):
+                    continue
+                if o.get("form") == "slice" and list(range(n))[slice(*o["slice"])] != idx:
+                    continue
+                arg = self._index_arg(o, n)
+                (g.remove if o["op"] == "remove" else g.select)(arg)
+                rec = {"op": o["op"], "idx": sorted(set(idx)) if o["op"] == "remove" else idx, "form": o.get("form", "list")}
+            elif o["op"] == "rd":
+                try:
+                    g.remove_discrepancies()
+                except (ValueError, IndexError) as e:
+                    raised = type(e).__name__
+            elif o["op"] == "prune":
+                if _meta(g) is not None and _meta(g) != _true_meta(_stored(cls, g)[0]):
+                    continue                       # metadata does not describe the arrays: prune is not modelled there
+                g.prune(nt=o["nt"], M=None if o["M"] is None else _f(o["M"]))
+            elif o["op"] == "build":
+                if not counts_ok() or not numpy.isfinite(g.vrnt_genpos).all():   # interp1d needs two knots per chromosome
+                    continue
+                g.build_spline()
+                built_from = _stored(cls, g)[0]
+            elif o["op"] == "group":
+                g.group()
+            elif o["op"] == "ungroup":
+                g.ungroup()
+            elif o["op"] == "reorder":
+                if sorted(o["idx"]) != list(range(n)):
+                    continue
+                g.reorder(numpy.array(o["idx"], dtype=int))
+            elif o["op"] == "copy":
+                outv, r0 = ask(g, q0)             # (groups an ungrouped map: recorded as a step of its own)
+                snap({"op": "interp", "qchr": [c for c, _ in q0], "qphy": [x for _, x in q0]}, outv, r0)
+                kept.append((g, _stored(cls, g), _meta(g), outv, r0, built_from))
+                g = g.deepcopy() if o["deep"] else g.copy()
+            elif o["op"] == "assign":
+                chr_, phy, gen = g.vrnt_chrgrp, g.vrnt_phypos, g.vrnt_genpos
+                tags = [r[3] for r in _stored(cls, g)[0]]
+                new_phy, new_gen = None, None
+                if o["mode"] == "gen_affine":
+                    new_gen = gen * 2.0 + 0.25
+                elif o["mode"] == "gen_reverse":
+                    new_gen = gen.copy()
+                    for c in numpy.unique(chr_):
+                        new_gen[chr_ == c] = gen[chr_ == c][::-1]
+                elif o["mode"] == "phy_reflect":
+                    lo, hi = int(phy.min()), int(phy.max())
+                    new_phy = numpy.array([hi + lo - int(x) for x in phy], dtype=phy.dtype)
+                else:
+                    new_phy = phy.copy()
+                    for c in numpy.unique(chr_):
+                        new_phy[chr_ == c] = numpy.roll(phy[chr_ == c], 1)
+                if new_gen is not None:
+                    g.vrnt_genpos = new_gen
+                if new_phy is not None:
+                    g.vrnt_phypos = new_phy
+                    if cls == "ext":
+                        g.vrnt_stop = numpy.array([int(x) + 7 + t for x, t in zip(new_phy, tags)], dtype=int)
+                rec = {"op": "assign", "mode": o["mode"], "rows": _stored(cls, g)[0]}
+            elif o["op"] == "interp_gmap":
+                if not g.has_spline() or not set(o["qchr"]) <= {int(c) for c in g.spline.keys()}:
+                    continue
+                qc = numpy.array(o["qchr"], dtype=int)
+                qp = numpy.array(o["qphy"], dtype=int)
+                tags = list(range(next_tag[0], next_tag[0] + len(qc)))
+                next_tag[0] += len(qc)
+                try:
+                    if cls == "std":
+                        d = g.interp_gmap(qc, qp)
+                    else:
+                        nm = None if mo.get("names_none") else numpy.array([f"m{t}" for t in tags], dtype=object)
+                        fc = None if mo.get("names_none") else numpy.array([f"f{t}" for t in tags], dtype=object)
+                        d = g.interp_gmap(qc, qp, numpy.array([int(x) + 7 + t for x, t in zip(qp, tags)], dtype=int),
+                                          vrnt_name=nm, vrnt_fncode=fc)
+                    # the derived map is the object the history continues on; the parent must not be affected by it
+                    rec = {**o, "tags": tags, "copies_meta": bool(d.is_grouped())}
+                    outp, rp = ask(g, q0)
+                    kept.append((g, _stored(cls, g), _meta(g), outp, rp, built_from))
+                    g = d
+                except (ValueError, IndexError) as e:
+                    if "spline not built" in str(e):
+                        raise
+                    raised = type(e).__name__
+                    rec = {**o, "tags": tags, "copies_meta": True}
+            else:
+                raise ValueError(o["op"])
+            snap(rec, None, raised)
+            # interrogate: the case's queries, plus markers of the map as it stands now (own-marker law) and
+            # points between neighbours of the stored arrays
+            cur = _stored(cls, g)[0]
+            own_rows = cur[::max(1, len(cur) // 6)][:8]
+            own = [(r[0], int(r[1])) for r in own_rows]
+            mids = []
+            by = {}
+            for r in cur:
+                by.setdefault(r[0], []).append(int(r[1]))
+            for c, ps in by.items():
+                ps.sort()
+                mids += [(c, (a_ + b_) // 2) for a_, b_ in zip(ps, ps[1:]) if b_ - a_ > 1][:2]
+            qs = q0 + own + mids[:4]
+            outv, r1 = ask(g, qs)
+            snap({"op": "interp", "qchr": [c for c, _ in qs], "qphy": [x for _, x in qs]}, outv, r1)
+            snaps[-1]["own_at"], snaps[-1]["own_gen"] = len(q0), [r[2] for r in own_rows]
+        # final state: distances of the stored arrays; is_congruent() groups an ungrouped map, so ask it last
+        fin = {}
+        cur = _stored(cls, g)[0]
+        if 0 < len(cur) <= 24:
+            chr_, gen = g.vrnt_chrgrp, g.vrnt_genpos
+            fin = {"chr": [r[0] for r in cur], "gen": [r[2] for r in cur],
+                   "d2": canon.enc(g.gdist2g(chr_, gen))}
+            if _contiguous(fin["chr"]):
+                fin["d1"] = canon.enc(g.gdist1g(chr_, gen))
+        try:
+            cong = bool(g.is_congruent())
+        except (ValueError, IndexError) as e:
+            cong = _ERR[type(e).__name__]
+        # objects copies were taken from must not have been touched by what happened to the copies
+        alias_ok = True
+        kept_final = []
+        for obj, st0, me0, out0, r0, bf in kept:
+            out1, r1 = ask(obj, q0)
+            alias_ok = alias_ok and (_stored(cls, obj) == st0 and _meta(obj) == me0 and out1 == out0 and r1 == r0)
+            # ... and must still obey the interpolation clause for the rows ITS spline was built from
+            if bf is not None and not r1:
+                qs = q0 + [(r[0], int(r[1])) for r in bf][::max(1, len(bf) // 6)][:8]
+                o2, r2 = ask(obj, qs)
+                if o2 is not None:
+                    kept_final.append({"rows": bf, "qchr": [c for c, _ in qs], "qphy": [x for _, x in qs], "out": o2})
+        return {"done": done, "snaps": snaps, "is_congruent": cong, "final": fin, "alias_ok": alias_ok,
+                "kept_final": kept_final}
+
+    def _run_big(self, case):
+        """sizes past every plausible internal constant (chunks of 1024 / 4096, int8 / int16 counters): maps with
+        hundreds to thousands of markers per chromosome.  The arrays are too large for the JSON bridge, so the
+        clauses are evaluated here, in numpy, on exactly representable data (integer physical positions, dyadic
+        genetic positions: every float operation the clauses involve is exact)."""
+        import random as _r
+        m = _mods()
+        rng = _r.Random(case["seed"])
+        cls = case["cls"]
+        rows = []
+        for ci, nm in enumerate(case["counts"]):
+            c = 3 * ci + 1
+            phys = sorted(rng.sample(range(1, 40 * nm), nm))
+            gen, acc = [], 0
+            for _ in range(nm):
+                acc += rng.choice([0, 1, 1, 2, 3, 5])
+                gen.append(acc)
+            rows += [[c, p_, canon.enc(Fraction(x, 1024)), 0] for p_, x in zip(phys, gen)]
+        srt = [list(r) for r in rows]
+        rng.shuffle(rows)
+        for t, r in enumerate(rows):
+            r[3] = t
+        g = _build_map(cls, rows, True, case.get("mopts"))
+        bad = []
+        chr_s = numpy.array([r[0] for r in srt])
+        phy_s = numpy.array([r[1] for r in srt])
+        gen_s = numpy.array([_f(r[2]) for r in srt])
+        n = len(srt)
+        # constructor: stored arrays are the rows sorted by (chromosome, physical position)
+        if not (numpy.array_equal(g.vrnt_chrgrp, chr_s) and numpy.array_equal(g.vrnt_phypos, phy_s)
+                and numpy.array_equal(g.vrnt_genpos, gen_s)):
+            bad.append("stored arrays are not the rows sorted by (chromosome, physical position)")
+        # own markers, midpoints of flanking markers, absent chromosome
+        own = g.interp_genpos(chr_s, phy_s)
+        if not numpy.allclose(own, gen_s, rtol=1e-12, atol=1e-12):
+            i = int(numpy.argmax(~numpy.isclose(own, gen_s, rtol=1e-12, atol=1e-12)))
+            bad.append(f"own marker {i} (chr {chr_s[i]}, pos {phy_s[i]}): stored {gen_s[i]!r}, interpolated {own[i]!r}")
+        same = chr_s[1:] == chr_s[:-1]
+        gap = same & (phy_s[1:] - phy_s[:-1] > 1)
+        qc, lo, hi = chr_s[1:][gap], phy_s[:-1][gap], phy_s[1:][gap]
+        qx = (lo + hi) // 2
+        want = gen_s[:-1][gap] + (gen_s[1:][gap] - gen_s[:-1][gap]) * (qx - lo) / (hi - lo)
+        got = g.interp_genpos(qc, qx)
+        if not numpy.allclose(got, want, rtol=1e-9, atol=1e-12):
+            i = int(numpy.argmax(~numpy.isclose(got, want, rtol=1e-9, atol=1e-12)))
+            bad.append(f"between flanking markers (chr {qc[i]}, pos {qx[i]}): chord {want[i]!r}, interpolated {got[i]!r}")
+        if not numpy.isnan(g.interp_genpos(numpy.array([2, 2]), numpy.array([5, 50000]))).all():
+            bad.append("absent chromosome not reported missing")
+        # sequential / pairwise distances of the stored map
+        d1 = g.gdist1g(g.vrnt_chrgrp, g.vrnt_genpos)
+        start = numpy.concatenate(([True], ~same))
+        exp1 = numpy.where(start, numpy.inf, numpy.concatenate(([0.0], gen_s[1:] - gen_s[:-1])))
+        if not numpy.array_equal(d1, exp1):
+            i = int(numpy.argmax(d1 != exp1))
+            bad.append(f"gdist1g cell {i}: {d1[i]!r}, expected {exp1[i]!r}")
+        a_, b_ = max(0, n // 2 - 40), min(n, n // 2 + 40)
+        for (rst, rsp, cst, csp) in ((None, None, None, None) if n <= 2500 else (a_, b_, None, None),
+                                     (1000, 1060, 990, min(n, 1100)), (a_, b_, a_, b_)):
+            d2 = g.gdist2g(g.vrnt_chrgrp, g.vrnt_genpos, rst, rsp, cst, csp)
+            ci_, cj_ = chr_s[rst:rsp][:, None], chr_s[cst:csp][None, :]
+            exp2 = numpy.where(ci_ == cj_, numpy.abs(gen_s[rst:rsp][:, None] - gen_s[cst:csp][None, :]), numpy.inf)
+            if d2.shape != exp2.shape or not numpy.array_equal(d2, exp2):
+                bad.append(f"gdist2g[{rst}:{rsp}, {cst}:{csp}] differs from |gi - gj| / inf between chromosomes")
+        s1 = g.gdist1g(g.vrnt_chrgrp, g.vrnt_genpos, 1000, min(n, 1100))
+        e1 = exp1[1000:min(n, 1100)].copy()
+        if len(e1):
+            e1[0] = numpy.inf
+        if not numpy.array_equal(s1, e1):
+            bad.append("gdist1g[1000:1100] differs")
+        # crossover probabilities of a matrix with as many variants
+        fn = _mapfn(case["fn"])
+        vc = numpy.concatenate((qc, chr_s[::7]))
+        vp = numpy.concatenate((qx, phy_s[::7]))
+        gm = m["dgm"].DenseGenotypeMatrix(numpy.zeros((2, len(vc)), dtype="int8"), vrnt_chrgrp=vc, vrnt_phypos=vp)
+        gm.group_vrnt()
+        gm.interp_xoprob(g, fn)
+        vc2, vp2 = gm.vrnt_chrgrp, gm.vrnt_phypos
+        gp = g.interp_genpos(vc2, vp2)
+        if not numpy.array_equal(gm.vrnt_genpos, gp):
+            bad.append("vrnt_genpos of the matrix is not interp_genpos of its variants")
+        st2 = numpy.concatenate(([True], vc2[1:] != vc2[:-1]))
+        expx = numpy.where(st2, 0.5, fn.mapfn(numpy.concatenate(([0.0], gp[1:] - gp[:-1]))))
+        if not numpy.allclose(gm.vrnt_xoprob, expx, rtol=1e-12, atol=1e-15):
+            i = int(numpy.argmax(~numpy.isclose(gm.vrnt_xoprob, expx, rtol=1e-12, atol=1e-15)))
+            bad.append(f"vrnt_xoprob[{i}] = {gm.vrnt_xoprob[i]!r}, expected {expx[i]!r}")
+        # map function on a long array of distances (monotone, inverse)
+        d = numpy.arange(0, 3000) / 1024.0
+        r = fn.mapfn(d)
+        if not ((numpy.diff(r) >= 0).all() and r[0] == 0 and (r <= 0.5).all()
+                and numpy.allclose(fn.invmapfn(r[:1500]), d[:1500], rtol=1e-9, atol=1e-12)):
+            bad.append("map function on 3000 distances: not monotone / not undone by the inverse")
+        return {"bad": bad, "n": n, "nvar": int(len(vc))}
 
     # ------------------------------------------------------------------ model requests
     def requests(self, case, obs):
@@ -589,7 +1233,12 @@ class C11(Prop):
                     {"op": "c11.spec_gdist", "chr": case["chr"], "gen": case["gen"], "d2": obs["d2"],
                      **({"d1": obs["d1"]} if _contiguous(case["chr"]) else {})}]
             if case.get("slices"):
-                reqs.append({"op": "c11.gdist", "chr": case["chr"], "gen": case["gen"], **case["slices"]})
+                # python slice bounds (negative / beyond the end) as the non-negative bounds the model takes
+                n_, sl = len(case["chr"]), case["slices"]
+                norm = {}
+                for a_, b_ in (("ast", "asp"), ("rst", "rsp"), ("cst", "csp")):
+                    norm[a_], norm[b_], _ = slice(sl[a_], sl[b_]).indices(n_)
+                reqs.append({"op": "c11.gdist", "chr": case["chr"], "gen": case["gen"], **norm})
             return reqs
         if k == "interp":
             q = {"qchr": case["qchr"], "qphy": case["qphy"]}
@@ -599,7 +1248,11 @@ class C11(Prop):
                     {"op": "c11.gdistp", "rows": case["rows"], **q},
                     # distance clause on the *interpolated* positions (gdist1p only for sorted queries)
                     {"op": "c11.spec_gdist", "chr": case["qchr"], "gen": obs["out"], "d2": obs["d2p"],
-                     **({"d1": obs["d1p"]} if self._seq_ok(case) else {})}] + (
+                     **({"d1": obs["d1p"]} if self._seq_ok(case) else {})},
+                    # the array edited in place and asked again: the clause at the positions it holds NOW
+                    {"op": "c11.spec_interp", "rows": case["rows"], "qchr": case["qchr"],
+                     "qphy": [x + 1 for x in case["qphy"]], "out": obs["out_inplace"], "out2": obs["out_inplace"]},
+                    {"op": "c11.gdistp", "rows": case["rows"], **q, **self._norm_pslices(case)}] + (
                     # distance clause on the stored arrays of the constructed (grouped) map
                     [{"op": "c11.spec_gdist", "chr": [r[0] for r in obs["stored3"]],
                       "gen": [r[2] for r in obs["stored3"]], "d1": obs["d1_stored"], "d2": obs["d2_stored"]}]
@@ -614,13 +1267,25 @@ class C11(Prop):
             return reqs
         if k == "sortdup":
             return [{"op": "c11.construct", "rows": case["rows"]}]
+        if k == "big":
+            return []
         if k == "edit":
-            reqs = [{"op": "c11.edit", "rows": case["rows"], "auto_group": case["auto_group"], "ops": obs["done"]}]
+            reqs = [{"op": "c11.edit", "rows": case["rows"], "auto_group": case["auto_group"],
+                     "auto_spline": not (case.get("mopts") or {}).get("no_spline"), "ops": obs["done"]}]
             # the interpolation clause of the property, for the map the spline was built from
             for st, sn in zip(obs["done"], obs["snaps"]):
-                if st["op"] == "interp":
+                if st["op"] == "interp" and sn["out"] is not None:
                     reqs.append({"op": "c11.spec_interp", "rows": sn["built_from"], "qchr": st["qchr"],
                                  "qphy": st["qphy"], "out": sn["out"], "out2": sn["out"]})
+            # the distance clause on the arrays the object ends up with
+            fin = obs.get("final") or {}
+            if fin:
+                reqs.append({"op": "c11.spec_gdist", "chr": fin["chr"], "gen": fin["gen"], "d2": fin["d2"],
+                             **({"d1": fin["d1"]} if "d1" in fin else {})})
+            # the interpolation clause on the objects copies / derived maps were taken from, asked at the very end
+            for kf in obs.get("kept_final") or []:
+                reqs.append({"op": "c11.spec_interp", "rows": kf["rows"], "qchr": kf["qchr"], "qphy": kf["qphy"],
+                             "out": kf["out"], "out2": kf["out"]})
             return reqs
         if k == "xoprob":
             q = {"qchr": obs["qchr"], "qphy": obs["qphy"]}
@@ -638,6 +1303,32 @@ class C11(Prop):
                     reqs.append({"op": "c11.spec_interp", "rows": rows, **q, "out": gp, "out2": gp})
             return reqs
         raise ValueError(k)
+
+    @staticmethod
+    def _slice_law(d1, d2, d1s, d2s, sl, seq):
+        """the distance arrays computed with the optional slice arguments are the corresponding parts of the full
+        arrays (which are checked against the clause): pairwise [rst:rsp, cst:csp]; sequential [ast:asp] with +inf
+        in its first cell.  `d1 = None` / `seq = False`: sequential part not asked (labels not contiguous)."""
+        want2 = [row[sl["cst"]:sl["csp"]] for row in d2[sl["rst"]:sl["rsp"]]]
+        if len(want2) != len(d2s) or any(len(a) != len(b) or not all(canon.close_enc(x, y, 1e-12, 0) for x, y in zip(a, b))
+                                         for a, b in zip(want2, d2s)):
+            return "pairwise distances with slice arguments differ from that part of the full matrix"
+        if d1 is not None and seq:
+            want1 = d1[sl["ast"]:sl["asp"]]
+            if want1:
+                want1 = ["inf"] + want1[1:]
+            if len(want1) != len(d1s) or not all(canon.close_enc(x, y, 1e-12, 0) for x, y in zip(want1, d1s)):
+                return "sequential distances with slice arguments differ from that part of the full array"
+        return None
+
+    @staticmethod
+    def _norm_pslices(case):
+        sl = case.get("pslices") or {}
+        n_ = len(case["qchr"])
+        norm = {}
+        for a_, b_ in (("ast", "asp"), ("rst", "rsp"), ("cst", "csp")):
+            norm[a_], norm[b_], _ = slice(sl.get(a_), sl.get(b_)).indices(n_)
+        return norm
 
     @staticmethod
     def _steps(case):
@@ -679,7 +1370,7 @@ class C11(Prop):
             # bound `invtol` (Model/GMapSpec.invTol, Lemmas/MapFnCond) of d, so they are within twice that
             inv_ok = all(t is None or canon.close_enc(a, b, 2e-9, 2 * float(Fraction(t)) + 1e-12)
                          for a, b, t in zip(m["inv"], obs["dinv"], m["invtol"]))
-            corr = corr and inv_ok
+            corr = corr and inv_ok and obs["shape_ok"]
             spec = bool(s["ok"]) and obs["input_untouched"]
             nontriv = len(set(map(str, case["d"]))) >= 3 and any(Fraction(x) > 0 for x in fin)
             return {"corr": corr, "spec": spec, "nontrivial": nontriv,
@@ -712,10 +1403,17 @@ class C11(Prop):
                 else:
                     runs.append([c, 1])
             nontriv = len(runs) >= 2 and any(n >= 3 for _, n in runs) and _contiguous(case["chr"])
-            return {"corr": corr, "spec": bool(s["ok"]), "nontrivial": nontriv,
-                    "detail": f"gdist spec: {s['detail']}; model d1={m['d1']} impl d1={obs['d1']}"}
+            spec, sdet = bool(s["ok"]), s["detail"]
+            if case.get("slices"):
+                sl = case["slices"]
+                bad = self._slice_law(obs["d1"] if _contiguous(case["chr"]) else None, obs["d2"], obs["d1s"], obs["d2s"], sl,
+                                      _contiguous(case["chr"][sl["ast"]:sl["asp"]]))
+                if bad:
+                    spec, sdet = False, sdet + "; " + bad
+            return {"corr": corr, "spec": spec, "nontrivial": nontriv,
+                    "detail": f"gdist spec: {sdet}; model d1={m['d1']} impl d1={obs['d1']}"}
         if k == "interp":
-            mc, mi, s, mp, sg = ans[:5]
+            mc, mi, s, mp, sg, sinp, mps = ans[:7]
             why = []
             # (1) constructor: stored arrays, riding columns, group metadata, congruence
             exp_rows = mc["rows"] if case["auto_group"] else case["rows"]
@@ -744,15 +1442,33 @@ class C11(Prop):
                 why.append("gdist2p")
             if self._seq_ok(case) and not self._close_list(mp["d1"], obs["d1p"]):
                 why.append("gdist1p")
+            if case.get("pslices"):
+                if len(mps["d2"]) != len(obs["d2ps"]) or not all(self._close_list(a, b) for a, b in zip(mps["d2"], obs["d2ps"])):
+                    why.append("gdist2p with slice arguments")
+                sl = case["pslices"]
+                if case["qsorted"] and _contiguous(case["qchr"][sl["ast"]:sl["asp"]]) and \
+                        not self._close_list(mps["d1"], obs["d1ps"]):
+                    why.append("gdist1p with slice arguments")
             corr = not why
             # Spec: the Lean oracle on interp_genpos + "nothing depends on the supplied row order"
-            spec = bool(s["ok"]) and bool(sg["ok"])
-            detail = s["detail"] + "; distances of interpolated positions: " + sg["detail"]
+            spec = bool(s["ok"]) and bool(sg["ok"]) and bool(sinp["ok"])
+            detail = s["detail"] + "; distances of interpolated positions: " + sg["detail"] + \
+                "; query array edited in place and asked again: " + sinp["detail"]
             if case["auto_group"] and obs["stored"] != obs["stored2"]:
                 spec = False
                 detail += "; stored arrays depend on the supplied row order"
+            if case["auto_group"] and obs["is_congruent"] != obs["is_congruent2"]:
+                spec = False
+                detail += "; is_congruent() depends on the supplied row order"
+            if case.get("pslices"):
+                sl = case["pslices"]
+                bad = self._slice_law(obs.get("d1p") if self._seq_ok(case) else None, obs["d2p"], obs.get("d1ps"),
+                                      obs["d2ps"], sl, _contiguous(case["qchr"][sl["ast"]:sl["asp"]]))
+                if bad:
+                    spec = False
+                    detail += "; " + bad
             if case["auto_group"]:
-                ss = ans[5]
+                ss = ans[7]
                 detail += "; distances of the stored map: " + ss["detail"]
                 spec = spec and bool(ss["ok"])
             qs = list(zip(case["qchr"], case["qphy"]))
@@ -773,6 +1489,10 @@ class C11(Prop):
             return {"corr": not why, "spec": bool(sp["ok"]), "nontrivial": len(case["qchr"]) >= 2,
                     "detail": f"spline[{case['cls']},{case['spline_kind']}] spec: {sp['detail']}; corr: {why or 'ok'}; "
                               f"out={obs['out']}" + (f" model={ans[1]['out']}" if len(ans) > 1 else "")}
+        if k == "big":
+            ok = not obs["bad"]
+            return {"corr": ok, "spec": ok, "nontrivial": obs["n"] > 1024,
+                    "detail": f"big[{case['cls']}, {obs['n']} markers, {obs['nvar']} variants] spec: {obs['bad'] or 'ok'}"}
         if k == "sortdup":
             mc = ans[0]
 
@@ -792,6 +1512,8 @@ class C11(Prop):
         if k == "edit":
             msn = ans[0]
             why = []
+            clauses = []          # failed clauses of the Spec, by type (used by the findings matcher)
+            raise_agree = True    # every call that raised is predicted to raise (same exception) by the as-is model
             if len(msn) != len(obs["snaps"]):
                 why.append("number of snapshots")
             for n, (st, a, b) in enumerate(zip(obs["done"], msn, obs["snaps"])):
@@ -805,15 +1527,44 @@ class C11(Prop):
                     why.append(tag + " group metadata")
                 if not b["tags_ok"]:
                     why.append(tag + " riding columns detached")
-                if st["op"] == "interp" and (a["out"] is None or not self._close_list(a["out"], b["out"])):
-                    why.append(tag + " interp_genpos")
+                if a["raised"] != _ERR.get(b["raised"], b["raised"]):
+                    why.append(tag + f" raised {b['raised']} (model: {a['raised']})")
+                    raise_agree = False
+                if st["op"] == "interp" and not b["raised"]:
+                    if (a["out"] is None) != (b["out"] is None) or (
+                            a["out"] is not None and not self._close_list(a["out"], b["out"])):
+                        why.append(tag + " interp_genpos")
+                if (st["op"] == "interp" and b["out"] is not None and n > 0 and obs["done"][n - 1]["op"] == "interp_gmap"
+                        and not obs["snaps"][n - 1]["raised"]):
+                    # the map interp_gmap returns answers from the parent's spline: asked at its own markers it must
+                    # return the positions it stores (they were computed by that very spline)
+                    k0 = b["own_at"]
+                    if not self._close_list(b["out"][k0:k0 + len(b["own_gen"])], b["own_gen"]):
+                        clauses.append("derived map: own markers")
+                if b["raised"]:
+                    # a call on a map of the property's domain raised.  It is the recorded defect of interp_gmap when
+                    # the object is a derived map whose (copied) metadata does not describe its own arrays
+                    stale = b["meta"] is not None and b["meta"] != _true_meta(b["stored"])
+                    clauses.append("stale_metadata_raise" if stale else "raise")
             if msn and msn[-1]["congruent"] != obs["is_congruent"]:
-                why.append("is_congruent")
+                why.append(f"is_congruent {obs['is_congruent']} (model: {msn[-1]['congruent']})")
+            if not obs["alias_ok"]:
+                why.append("an object changed after its copy was edited")
             specs = ans[1:]
-            spec = all(x["ok"] for x in specs)
-            edited = any(st["op"] in ("remove", "select", "rd", "prune") for st in obs["done"])
-            return {"corr": not why, "spec": spec, "nontrivial": edited and len(obs["done"]) >= 2,
-                    "detail": f"edit[{case['cls']}] spec: {[x['detail'] for x in specs if not x['ok']] or 'ok'}; "
+            nint = sum(1 for st, sn in zip(obs["done"], obs["snaps"]) if st["op"] == "interp" and sn["out"] is not None)
+            if any(not x["ok"] for x in specs[:nint]):
+                clauses.append("interpolation")
+            nfin = 1 if obs.get("final") else 0
+            if any(not x["ok"] for x in specs[nint:nint + nfin]):
+                clauses.append("distances")
+            if any(not x["ok"] for x in specs[nint + nfin:]):
+                clauses.append("an untouched map no longer obeys the interpolation clause after ANOTHER object was edited")
+            edited = any(st["op"] in ("remove", "select", "rd", "prune", "assign", "interp_gmap", "reorder") for st in obs["done"])
+            if case.get("_shrunk") and clauses and set(clauses) == {"stale_metadata_raise"} and not why:
+                clauses = []          # see shrink(): the recorded defect alone does not keep a shrunk candidate
+            return {"corr": not why, "spec": not clauses, "nontrivial": edited and len(obs["done"]) >= 2,
+                    "clauses": clauses, "raise_agree": raise_agree and len(msn) == len(obs["snaps"]),
+                    "detail": f"edit[{case['cls']}] spec: {clauses or 'ok'} {[x['detail'] for x in specs if not x['ok']]}; "
                               f"corr: {why or 'ok'}; done={[st['op'] for st in obs['done']]}"}
         if k == "xoprob":
             mr = ans[0]
@@ -860,6 +1611,11 @@ class C11(Prop):
             for c in obs["qchr"]:
                 runs[c] = runs.get(c, 0) + 1
             nontriv = len(runs) >= 2 and any(n >= 2 for n in runs.values())
+            if not obs["alias_ok"]:
+                # the arrays of the matrix satisfied the clause after their placement and were changed by calls
+                # that do not involve the matrix: they no longer are what the clause says
+                spec = False
+                sdetail.append("vrnt_genpos / vrnt_xoprob of the matrix changed when ANOTHER matrix was placed")
             return {"corr": not why, "spec": spec, "nontrivial": nontriv,
                     "detail": f"xoprob[{case['cls']}] spec: {'; '.join(sdetail)}; corr: {why or 'ok'}; "
                               f"final xoprob={obs['xoprob']}"}
@@ -870,6 +1626,16 @@ class C11(Prop):
         for key in ("cls", "fn", "auto_group"):
             if key in case:
                 sig[key] = case[key]
+        if case["kind"] == "edit" and isinstance(obs, dict) and "done" in obs:
+            # D110: the only failed clause is "a call raised on a derived map carrying the parent's metadata", the
+            # history does contain an interp_gmap that copied metadata, and the as-is model (literal loop over the
+            # stored metadata) predicts every one of these exceptions at the same call
+            cl = verdict.get("clauses") or []
+            derived = any(st["op"] == "interp_gmap" and st.get("copies_meta") for st in obs["done"])
+            if cl and set(cl) == {"stale_metadata_raise"} and derived and verdict.get("raise_agree"):
+                sig["site"], sig["cond"] = "interp_gmap", "stale_metadata"
+            else:
+                sig["site"], sig["cond"] = "edit", "other"
         return sig
 
     # ------------------------------------------------------------------ shrinking
@@ -896,13 +1662,17 @@ class C11(Prop):
                 if len(case["rows"]) > 2:
                     yield {**case, "rows": case["rows"][:i] + case["rows"][i + 1:]}
         elif k == "edit":
+            # `_shrunk`: a candidate of the shrinker must keep failing for a reason OTHER than the recorded defect
+            # D110 (otherwise every failing history with an interp_gmap would shrink into that defect)
+            if case.get("mopts"):
+                yield {**{kk: vv for kk, vv in case.items() if kk != "mopts"}, "_shrunk": True}
             for i in range(len(case["ops"])):
                 if len(case["ops"]) > 1:
-                    yield {**case, "ops": case["ops"][:i] + case["ops"][i + 1:]}
+                    yield {**case, "ops": case["ops"][:i] + case["ops"][i + 1:], "_shrunk": True}
             for i in range(len(case["qchr"])):
                 if len(case["qchr"]) > 1:
                     yield {**case, "qchr": case["qchr"][:i] + case["qchr"][i + 1:],
-                           "qphy": case["qphy"][:i] + case["qphy"][i + 1:]}
+                           "qphy": case["qphy"][:i] + case["qphy"][i + 1:], "_shrunk": True}
         elif k in ("interp", "xoprob"):
             qa, qb = ("qchr", "qphy") if k == "interp" else ("mchr", "mphy")
             if k == "xoprob":
@@ -1089,7 +1859,238 @@ class C11(Prop):
         def prune_spacing_doubled(self, nt=None, M=None):
             return real_prune(self, nt=None if nt is None else 2 * nt, M=None if M is None else 2 * M)
 
-        return [
+        # ---- round 3: one mutant per class of inputs / histories the generator was extended with ----------
+        from scipy.interpolate import interp1d as _interp1d
+
+        def build_spline_slices_when_grouped(self, kind='linear', fill_value='extrapolate', **kw):
+            self._spline = {}
+            self._spline_kind = kind
+            self._spline_fill_value = fill_value
+            if self.is_grouped():
+                for grp, st, sp in zip(self._vrnt_chrgrp_name, self._vrnt_chrgrp_stix, self._vrnt_chrgrp_spix):
+                    self._spline[grp] = _interp1d(x=self._vrnt_phypos[st:sp], y=self._vrnt_genpos[st:sp], kind=kind,
+                                                  fill_value=fill_value, assume_sorted=True)
+                return
+            for grp in numpy.unique(self._vrnt_chrgrp):
+                mask = (self._vrnt_chrgrp == grp)
+                self._spline[grp] = _interp1d(x=self._vrnt_phypos[mask], y=self._vrnt_genpos[mask], kind=kind,
+                                              fill_value=fill_value, assume_sorted=False)
+
+        def group_fastpath_diff(self, **kw):
+            dchr = numpy.diff(self._vrnt_chrgrp)
+            dpos = numpy.diff(self._vrnt_phypos)
+            if not numpy.all((dchr > 0) | ((dchr == 0) & (dpos > 0))):
+                self.sort()
+            uniq = numpy.unique(self._vrnt_chrgrp, return_index=True, return_counts=True)
+            self._vrnt_chrgrp_name, self._vrnt_chrgrp_stix, self._vrnt_chrgrp_len = uniq
+            self._vrnt_chrgrp_spix = self._vrnt_chrgrp_stix + self._vrnt_chrgrp_len
+
+        def hald_first_order(self, d):
+            d = numpy.asarray(d, dtype=float)
+            return numpy.where((d >= 0) & (d < 1e-4), d, 0.5 * (1.0 - numpy.exp(-2.0 * d)))
+
+        def kos_first_order(self, d):
+            d = numpy.asarray(d, dtype=float)
+            return numpy.where((d >= 0) & (d < 1e-4), d, 0.5 * numpy.tanh(2.0 * d))
+
+        def hald_inv_clip(self, r):
+            return -0.5 * numpy.log(numpy.clip(1.0 - (2.0 * r), 1e-12, None))
+
+        def gdist2g_isclose(self, vrnt_chrgrp, vrnt_genpos, rst=None, rsp=None, cst=None, csp=None):
+            mi, mj = numpy.meshgrid(vrnt_chrgrp[rst:rsp], vrnt_chrgrp[cst:csp], indexing='ij', sparse=True)
+            gi, gj = numpy.meshgrid(vrnt_genpos[rst:rsp], vrnt_genpos[cst:csp], indexing='ij', sparse=True)
+            out = numpy.abs(gi - gj)
+            out[numpy.isclose(gi, gj)] = 0.0
+            out[mi != mj] = numpy.inf
+            return out
+
+        real_gdist1g = S.gdist1g
+
+        def gdist1g_chunked(self, vrnt_chrgrp, vrnt_genpos, ast=None, asp=None):
+            vc, vg = vrnt_chrgrp[ast:asp], vrnt_genpos[ast:asp]
+            out = numpy.empty(vg.shape, dtype=float)
+            for a_ in range(0, len(vg), 1024):
+                out[a_:a_ + 1024] = real_gdist1g(self, vc[a_:a_ + 1024], vg[a_:a_ + 1024])
+            return out
+
+        def gdist1g_diff_prepend0(self, vrnt_chrgrp, vrnt_genpos, ast=None, asp=None):
+            vc, vg = vrnt_chrgrp[ast:asp], vrnt_genpos[ast:asp]
+            out = numpy.empty(vg.shape, dtype=float)
+            if len(out):
+                out[1:] = vg[1:] - vg[:-1]
+                out[0] = 0.0
+                out[numpy.diff(vc, prepend=0) != 0] = numpy.inf
+            return out
+
+        def gdist1g_ignores_strides(self, vrnt_chrgrp, vrnt_genpos, ast=None, asp=None):
+            vg = vrnt_genpos
+            if vg.base is not None and not vg.flags["C_CONTIGUOUS"]:
+                vg = numpy.ndarray(shape=vg.shape, dtype=vg.dtype, buffer=vg.base)
+            return real_gdist1g(self, vrnt_chrgrp, vg, ast, asp)
+
+        def mk_remove_abs(cls_):
+            real = cls_.remove
+
+            def remove_abs_indices(self, indices, **kw):
+                if isinstance(indices, numpy.ndarray) and indices.dtype != bool:
+                    indices = numpy.abs(indices)
+                return real(self, indices, **kw)
+            return remove_abs_indices
+
+        def mk_remove_mask_as_int(cls_):
+            real = cls_.remove
+
+            def remove_mask_as_int(self, indices, **kw):
+                if isinstance(indices, numpy.ndarray) and indices.dtype == bool:
+                    indices = indices.astype(int)          # a mask read as the indices 0 / 1
+                return real(self, indices, **kw)
+            return remove_mask_as_int
+
+        def mk_select_slice_step_ignored(cls_):
+            real = cls_.select
+
+            def select_slice_step_ignored(self, indices, **kw):
+                if isinstance(indices, slice):
+                    indices = slice(indices.start, indices.stop, None if (indices.step or 1) > 0 else -1)
+                return real(self, indices, **kw)
+            return select_slice_step_ignored
+
+        def mk_from_pandas_nogroup(cls_):
+            real = cls_.from_pandas.__func__
+
+            def from_pandas_nogroup(cls2, df, *a_, **kw):
+                kw["auto_group"] = False
+                return real(cls2, df, *a_, **kw)
+            return classmethod(from_pandas_nogroup)
+
+        def mk_congruence_memo(cls_):
+            real = cls_.congruence
+
+            def congruence_memoized(self):
+                c = getattr(self, "_congr_cache", None)
+                if c is None or len(c) != len(self._vrnt_genpos):
+                    c = real(self)
+                    self._congr_cache = c
+                return c
+            return congruence_memoized
+
+        def reorder_in_place(self, indices):
+            for nm_ in ("_vrnt_chrgrp", "_vrnt_phypos", "_vrnt_genpos", "_vrnt_stop", "_vrnt_name", "_vrnt_fncode"):
+                a_ = getattr(self, nm_, None)
+                if a_ is not None:
+                    a_[:] = a_[indices]
+            self.vrnt_chrgrp_name = self.vrnt_chrgrp_stix = self.vrnt_chrgrp_spix = self.vrnt_chrgrp_len = None
+
+        def mk_copy_shares(cls_):
+            def copy_shares_arrays(self):
+                out = cls_.__new__(cls_)
+                out.__dict__.update(self.__dict__)
+                return out
+            return copy_shares_arrays
+
+        def mk_interp_shared_buffer(cls_):
+            real = cls_.interp_genpos
+            bufs = {}
+
+            def interp_genpos_shared_buffer(self, vrnt_chrgrp, vrnt_phypos):
+                r = real(self, vrnt_chrgrp, vrnt_phypos)
+                b_ = bufs.setdefault(r.shape, numpy.empty(r.shape, dtype=float))
+                b_[...] = r
+                return b_
+            return interp_genpos_shared_buffer
+
+        def mk_interp_gmap_sorted(cls_):
+            real = cls_.interp_gmap
+
+            def interp_gmap_sorts_positions(self, vrnt_chrgrp, vrnt_phypos, *a_, **kw):
+                out = real(self, vrnt_chrgrp, vrnt_phypos, *a_, **kw)
+                ix = numpy.lexsort((out._vrnt_phypos, out._vrnt_chrgrp))
+                out._vrnt_chrgrp = out._vrnt_chrgrp[ix]
+                out._vrnt_phypos = out._vrnt_phypos[ix]
+                return out
+            return interp_gmap_sorts_positions
+
+        def mk_genpos_setter_sorted(cls_):
+            prop = cls_.__dict__["vrnt_genpos"]
+
+            def setter(self, value):
+                prop.fset(self, value)
+                if getattr(self, "_vrnt_chrgrp_stix", None) is not None and not isinstance(value, tuple):
+                    for st, sp in zip(self._vrnt_chrgrp_stix, self._vrnt_chrgrp_spix):
+                        self._vrnt_genpos[st:sp] = numpy.sort(self._vrnt_genpos[st:sp])
+            return property(prop.fget, setter)
+
+        def hald_noncontig_float32(self, d):
+            d = numpy.asarray(d)
+            if d.ndim and not d.flags["C_CONTIGUOUS"]:
+                d = numpy.ascontiguousarray(d, dtype="float32")      # "make it contiguous" with the wrong dtype
+            return 0.5 * (1.0 - numpy.exp(-2.0 * d))
+
+        def kos_2d_rowwise_max(self, d):
+            d = numpy.asarray(d, dtype=float)
+            if d.ndim == 2:
+                return 0.5 * numpy.tanh(2.0 * d.max(axis=1, keepdims=True) + 0.0 * d)
+            return 0.5 * numpy.tanh(2.0 * d)
+
+        def mk_interp_int32_positions(cls_):
+            real = cls_.interp_genpos
+
+            def interp_genpos_int32_positions(self, vrnt_chrgrp, vrnt_phypos):
+                with numpy.errstate(all="ignore"):
+                    return real(self, vrnt_chrgrp, vrnt_phypos.astype("int32"))
+            return interp_genpos_int32_positions
+
+        def reorder_keeps_metadata(self, indices):
+            for nm_ in ("_vrnt_chrgrp", "_vrnt_phypos", "_vrnt_genpos", "_vrnt_stop", "_vrnt_name", "_vrnt_fncode"):
+                a_ = getattr(self, nm_, None)
+                if a_ is not None:
+                    setattr(self, nm_, a_[indices])
+
+        def pair(f_s, f_e):
+            return both(f_s, f_e)
+
+        round3 = [
+            ("r3_build_spline_slices_when_grouped", lambda: pair(patch(S, "build_spline", build_spline_slices_when_grouped),
+                                                                 patch(E, "build_spline", build_spline_slices_when_grouped))),
+            ("r3_group_fastpath_unsigned_diff", lambda: pair(patch(S, "group", group_fastpath_diff),
+                                                             patch(E, "group", group_fastpath_diff))),
+            ("r3_haldane_first_order_below_1e-4", lambda: patch(H, "mapfn", hald_first_order)),
+            ("r3_kosambi_first_order_below_1e-4", lambda: patch(K, "mapfn", kos_first_order)),
+            ("r3_haldane_inverse_clipped_at_1e-12", lambda: patch(H, "invmapfn", hald_inv_clip)),
+            ("r3_gdist2g_isclose_to_zero", lambda: pair(patch(S, "gdist2g", gdist2g_isclose), patch(E, "gdist2g", gdist2g_isclose))),
+            ("r3_gdist1g_chunks_of_1024", lambda: pair(patch(S, "gdist1g", gdist1g_chunked), patch(E, "gdist1g", gdist1g_chunked))),
+            ("r3_gdist1g_diff_prepend_zero", lambda: pair(patch(S, "gdist1g", gdist1g_diff_prepend0),
+                                                          patch(E, "gdist1g", gdist1g_diff_prepend0))),
+            ("r3_gdist1g_ignores_strides", lambda: pair(patch(S, "gdist1g", gdist1g_ignores_strides),
+                                                        patch(E, "gdist1g", gdist1g_ignores_strides))),
+            ("r3_remove_abs_of_negative_indices", lambda: pair(patch(S, "remove", mk_remove_abs(S)), patch(E, "remove", mk_remove_abs(E)))),
+            ("r3_remove_mask_read_as_indices", lambda: pair(patch(S, "remove", mk_remove_mask_as_int(S)),
+                                                            patch(E, "remove", mk_remove_mask_as_int(E)))),
+            ("r3_select_slice_step_ignored", lambda: pair(patch(S, "select", mk_select_slice_step_ignored(S)),
+                                                          patch(E, "select", mk_select_slice_step_ignored(E)))),
+            ("r3_from_pandas_never_groups", lambda: pair(patch(S, "from_pandas", mk_from_pandas_nogroup(S)),
+                                                         patch(E, "from_pandas", mk_from_pandas_nogroup(E)))),
+            ("r3_congruence_memoized", lambda: pair(patch(S, "congruence", mk_congruence_memo(S)),
+                                                    patch(E, "congruence", mk_congruence_memo(E)))),
+            ("r3_copy_shares_arrays_reorder_in_place", lambda: both(pair(patch(S, "__copy__", mk_copy_shares(S)),
+                                                                         patch(E, "__copy__", mk_copy_shares(E))),
+                                                                    pair(patch(S, "reorder", reorder_in_place),
+                                                                         patch(E, "reorder", reorder_in_place)))),
+            ("r3_interp_genpos_shared_buffer", lambda: pair(patch(S, "interp_genpos", mk_interp_shared_buffer(S)),
+                                                            patch(E, "interp_genpos", mk_interp_shared_buffer(E)))),
+            ("r3_interp_gmap_sorts_positions_only", lambda: pair(patch(S, "interp_gmap", mk_interp_gmap_sorted(S)),
+                                                                 patch(E, "interp_gmap", mk_interp_gmap_sorted(E)))),
+            ("r3_haldane_float32_for_noncontiguous_input", lambda: patch(H, "mapfn", hald_noncontig_float32)),
+            ("r3_kosambi_2d_input_rowwise", lambda: patch(K, "mapfn", kos_2d_rowwise_max)),
+            ("r3_interp_genpos_positions_as_int32", lambda: pair(patch(S, "interp_genpos", mk_interp_int32_positions(S)),
+                                                                  patch(E, "interp_genpos", mk_interp_int32_positions(E)))),
+            ("r3_reorder_keeps_group_metadata", lambda: pair(patch(S, "reorder", reorder_keeps_metadata),
+                                                             patch(E, "reorder", reorder_keeps_metadata))),
+            ("r3_genpos_setter_sorts_within_groups", lambda: pair(patch(S, "vrnt_genpos", mk_genpos_setter_sorted(S)),
+                                                                  patch(E, "vrnt_genpos", mk_genpos_setter_sorted(E)))),
+        ]
+
+        return round3 + [
             ("prune_spacing_doubled", lambda: patch(E, "prune", prune_spacing_doubled)),
             ("build_spline_ignores_kind", lambda: both(patch(S, "build_spline", mk_build_linear_only(S)),
                                                        patch(E, "build_spline", mk_build_linear_only(E)))),
